@@ -1,28 +1,40 @@
-//! Engine `cli` (C20): the built `minidump-stackwalk` binary over the cross product of output
-//! options on a corpus of files, against (a) the Lean decision table `MdModel.Cli.cli` and
-//! (b) the reports the library produces in-process for the same file and options.
+//! Engine `cli` (C20): the built `minidump-stackwalk` binary against the Lean models of
+//! `MdModel.Cli*` and against the reports the library produces in-process.
 //!
-//! case line: `cli <flags> file:<id> feat:<0|1|2> out:<0|1> log:<0|1> sym:<0..4>`
-//!   flags ⊆ "hjcdbp" (human json cyborg dump brief pretty) or "-"
-//!   file ids: t:<name> (repo testdata) | missing | empty | dir | garbage:<seed> | trunc:<name>:<len>
-//!             | mut:<name>:<seed> (byte-mutated copy)
-//! The model request is `cli <flags> <input class>`; the class (unreadable / unprocessable / ok) is
-//! determined by running the library in-process.
+//! Case kinds (one text line each):
+//!   `cli <flags> file:<id> feat:<0|1|2> out:<0|1> log:<0|1> sym:<0..4>`
+//!        the decision table: all 64 subsets of {human,json,cyborg,dump,brief,pretty} x files
+//!   `cli io <flags> v:<0|1> hm:<0|1> lu:<0|1> in:<file id> cy:<id|-> out:<id|-> log:<id|-> so:<ok|full|closed|cap:N> lim:<N|-> fs:<spec|->`
+//!        one run of `main` in a described world (files that exist / cannot be created / fail on
+//!        write, size limits, failing standard output) vs `MdModel.Cli.run`
+//!   `cli opt feat:<0..3> rec:<0|1> evil:<0|1> sym:<0..4> url:<0|1> local:<0|1> noint:<0|1> mode:<h|j|c>`
+//!        processing options vs `MdModel.Cli.plan` and vs the library called with the planned options
+//!   `cli dump b:<0|1> ok:<hex mask> bad:<hex mask> dup:<hex mask> seed:<n>`
+//!        `--dump` on a synthesized dump containing the given stream types vs `MdModel.Cli.dumpSections`
+//!        and vs the library's per-stream printers
+//!   `cli selfout <out|cy>`   the output path is the minidump itself
+//! flags ⊆ "hjcdbp" (human json cyborg dump brief pretty) or "-"
+//! file ids: t:<name> (repo testdata) | missing | empty | dir | garbage:<seed> | trunc:<name>:<len>
+//!           | mut:<name>:<seed> (byte-mutated copy) | synth:nosys (readable, not processable)
 
 use crate::common::*;
-use crate::gen::dump_printer::print_minidump_dump;
-use minidump::Minidump;
+use minidump::*;
+use minidump_common::format as md;
 use minidump_processor::ProcessorOptions;
-use minidump_unwind::{simple_symbol_supplier, MultiSymbolProvider, Symbolizer};
+use minidump_synth as synth;
+use minidump_unwind::{http_symbol_supplier, simple_symbol_supplier, MultiSymbolProvider, Symbolizer};
+use std::collections::HashMap;
+use std::io::Write;
+use std::ops::Deref;
 use std::path::{Path, PathBuf};
 use std::process::{Command, Stdio};
 use std::sync::atomic::{AtomicU64, Ordering};
+use std::sync::{Arc, Mutex, OnceLock};
+use test_assembler::{Endian, Section};
 
 pub struct Cli;
 
 static COUNTER: AtomicU64 = AtomicU64::new(0);
-/// input class per (file id, features, symbols) as determined by `exec` (saves a second in-process run)
-static CLASSES: std::sync::Mutex<Option<std::collections::HashMap<String, &'static str>>> = std::sync::Mutex::new(None);
 
 fn repo() -> PathBuf {
     PathBuf::from(std::env::var("VERIF_REPO").unwrap_or_else(|_| "/repo".into()))
@@ -39,7 +51,13 @@ fn tool() -> PathBuf {
     }
 }
 fn scratch() -> PathBuf {
-    let d = verif().join(".scratch/cli").join(std::process::id().to_string());
+    // under the (git-ignored) cargo target directory
+    let d = verif().join("harness/target/cli-scratch").join(std::process::id().to_string());
+    std::fs::create_dir_all(&d).unwrap();
+    d
+}
+fn fresh_dir(tag: &str) -> PathBuf {
+    let d = scratch().join(format!("{tag}{}", COUNTER.fetch_add(1, Ordering::Relaxed)));
     std::fs::create_dir_all(&d).unwrap();
     d
 }
@@ -103,15 +121,21 @@ fn materialise(id: &str, dir: &Path) -> PathBuf {
             std::fs::write(&p, bytes).unwrap();
             p
         }
+        "synth" => {
+            // a valid minidump without any stream: readable, `process_minidump` fails (no system info)
+            let bytes = synth::SynthMinidump::with_endian(Endian::Little).finish().unwrap_or_default();
+            let p = dir.join("nosys.dmp");
+            std::fs::write(&p, bytes).unwrap();
+            p
+        }
         _ => dir.join("bad-id"),
     }
 }
 
 /// symbol path forms: 0 none | 1 positional | 2 --symbols-path | 3 --symbols-path <empty dir> + positional
 /// symbols | 4 --symbols-path symbols + positional <empty dir>. Returns (named, positional).
-fn sym_paths(sym: u32) -> (Vec<PathBuf>, Vec<PathBuf>) {
-    let symdir = repo().join("testdata/symbols");
-    let empty = verif().join(".scratch/cli/empty-symbols");
+fn sym_paths_in(symdir: PathBuf, sym: u32) -> (Vec<PathBuf>, Vec<PathBuf>) {
+    let empty = verif().join("harness/target/cli-scratch/empty-symbols");
     let _ = std::fs::create_dir_all(&empty);
     match sym {
         1 => (vec![], vec![symdir]),
@@ -121,117 +145,352 @@ fn sym_paths(sym: u32) -> (Vec<PathBuf>, Vec<PathBuf>) {
         _ => (vec![], vec![]),
     }
 }
-
-struct Case {
-    flags: String,
-    file: String,
-    feat: u32,
-    out: bool,
-    log: bool,
-    sym: u32,
+fn sym_paths(sym: u32) -> (Vec<PathBuf>, Vec<PathBuf>) {
+    sym_paths_in(repo().join("testdata/symbols"), sym)
 }
 
-fn parse_case(case: &str) -> Option<Case> {
-    let f: Vec<&str> = case.split(' ').filter(|s| !s.is_empty()).collect();
-    if f.len() != 7 || f[0] != "cli" {
-        return None;
+// ------------------------------------------------------------------------------------------------
+// The raw dump as the LIBRARY prints it: one section per stream type, composed here by hand from the
+// minidump crate's printers (independent of the text of main.rs — the translation of main.rs lives
+// in the Lean table `Gen.dumpStmts`, and the two meet in `exec`).
+// ------------------------------------------------------------------------------------------------
+
+type Sections = Vec<(String, Vec<u8>)>;
+
+fn opt_label<T>(name: &str, x: &Option<T>, ty: &str) -> String {
+    format!("{name}={}", if x.is_some() { ty } else { "-" })
+}
+
+fn thread_list_section<'a, T: Deref<Target = [u8]> + 'a>(
+    dump: &'a Minidump<'a, T>,
+    mem: u8, // 0 none, 1 memory list, 2 memory64 list
+    sys: bool,
+    misc: bool,
+    brief: bool,
+) -> Option<(String, Vec<u8>)> {
+    let tl = dump.get_stream::<MinidumpThreadList<'_>>().ok()?;
+    let unified = match mem {
+        2 => dump.get_stream::<MinidumpMemory64List<'_>>().ok().map(UnifiedMemoryList::Memory64),
+        1 => dump.get_stream::<MinidumpMemoryList<'_>>().ok().map(UnifiedMemoryList::Memory),
+        _ => None,
+    };
+    let system_info = if sys { dump.get_stream::<MinidumpSystemInfo>().ok() } else { None };
+    let misc_info = if misc { dump.get_stream::<MinidumpMiscInfo>().ok() } else { None };
+    let mut v = vec![];
+    tl.print(&mut v, unified.as_ref(), system_info.as_ref(), misc_info.as_ref(), brief).ok()?;
+    let um = match (mem, unified.is_some()) {
+        (2, true) => "MinidumpMemory64List",
+        (1, true) => "MinidumpMemoryList",
+        _ => "-",
+    };
+    Some((
+        format!(
+            "MinidumpThreadList[unified_memory={um},{},{},brief={}]",
+            opt_label("system_info", &system_info, "MinidumpSystemInfo"),
+            opt_label("misc_info", &misc_info, "MinidumpMiscInfo"),
+            brief as u8
+        ),
+        v,
+    ))
+}
+
+fn exception_section<'a, T: Deref<Target = [u8]> + 'a>(dump: &'a Minidump<'a, T>, sys: bool, misc: bool) -> Option<(String, Vec<u8>)> {
+    let ex = dump.get_stream::<MinidumpException>().ok()?;
+    let system_info = if sys { dump.get_stream::<MinidumpSystemInfo>().ok() } else { None };
+    let misc_info = if misc { dump.get_stream::<MinidumpMiscInfo>().ok() } else { None };
+    let mut v = vec![];
+    ex.print(&mut v, system_info.as_ref(), misc_info.as_ref()).ok()?;
+    Some((
+        format!(
+            "MinidumpException[{},{}]",
+            opt_label("system_info", &system_info, "MinidumpSystemInfo"),
+            opt_label("misc_info", &misc_info, "MinidumpMiscInfo")
+        ),
+        v,
+    ))
+}
+
+const RAW_STREAMS: &[(md::MINIDUMP_STREAM_TYPE, &str)] = &[
+    (md::MINIDUMP_STREAM_TYPE::LinuxCmdLine, "LinuxCmdLine"),
+    (md::MINIDUMP_STREAM_TYPE::LinuxEnviron, "LinuxEnviron"),
+    (md::MINIDUMP_STREAM_TYPE::LinuxLsbRelease, "LinuxLsbRelease"),
+    (md::MINIDUMP_STREAM_TYPE::LinuxProcStatus, "LinuxProcStatus"),
+    (md::MINIDUMP_STREAM_TYPE::LinuxCpuInfo, "LinuxCpuInfo"),
+    (md::MINIDUMP_STREAM_TYPE::LinuxMaps, "LinuxMaps"),
+    (md::MINIDUMP_STREAM_TYPE::MozLinuxLimits, "MozLinuxLimits"),
+    (md::MINIDUMP_STREAM_TYPE::MozSoftErrors, "MozSoftErrors"),
+];
+
+/// "Dump the 'raw' contents of the minidump": the header, then every stream the library can print, each
+/// once, the two memory lists both when both exist (64-bit first, it is the one the stacks are read
+/// from), then the Linux text streams as NUL-separated text.
+fn lib_sections<'a, T: Deref<Target = [u8]> + 'a>(dump: &'a Minidump<'a, T>, brief: bool) -> Sections {
+    let mut out: Sections = vec![];
+    let mut v = vec![];
+    dump.print(&mut v).unwrap();
+    out.push(("header".into(), v));
+    let have64 = dump.get_stream::<MinidumpMemory64List<'_>>().is_ok();
+    let have32 = dump.get_stream::<MinidumpMemoryList<'_>>().is_ok();
+    let mem = if have64 { 2 } else if have32 { 1 } else { 0 };
+    if let Some(s) = thread_list_section(dump, mem, true, true, brief) {
+        out.push(s);
     }
-    Some(Case {
-        flags: f[1].to_string(),
-        file: f[2].strip_prefix("file:")?.to_string(),
-        feat: f[3].strip_prefix("feat:")?.parse().ok()?,
-        out: f[4].strip_prefix("out:")? == "1",
-        log: f[5].strip_prefix("log:")? == "1",
-        sym: f[6].strip_prefix("sym:")?.parse().ok()?,
-    })
+    macro_rules! plain {
+        ($t:ty, $name:expr) => {
+            if let Ok(s) = dump.get_stream::<$t>() {
+                let mut v = vec![];
+                s.print(&mut v).unwrap();
+                out.push(($name.to_string(), v));
+            }
+        };
+    }
+    plain!(MinidumpModuleList, "MinidumpModuleList");
+    plain!(MinidumpUnloadedModuleList, "MinidumpUnloadedModuleList");
+    plain!(MinidumpHandleDataStream, "MinidumpHandleDataStream");
+    if let Ok(m) = dump.get_stream::<MinidumpMemory64List<'_>>() {
+        let mut v = vec![];
+        m.print(&mut v, brief).unwrap();
+        out.push((format!("MinidumpMemory64List[brief={}]", brief as u8), v));
+    }
+    if let Ok(m) = dump.get_stream::<MinidumpMemoryList<'_>>() {
+        let mut v = vec![];
+        m.print(&mut v, brief).unwrap();
+        out.push((format!("MinidumpMemoryList[brief={}]", brief as u8), v));
+    }
+    plain!(MinidumpMemoryInfoList<'_>, "MinidumpMemoryInfoList");
+    if let Some(s) = exception_section(dump, true, true) {
+        out.push(s);
+    }
+    plain!(MinidumpAssertion, "MinidumpAssertion");
+    plain!(MinidumpSystemInfo, "MinidumpSystemInfo");
+    plain!(MinidumpMiscInfo, "MinidumpMiscInfo");
+    plain!(MinidumpThreadNames, "MinidumpThreadNames");
+    plain!(MinidumpBreakpadInfo, "MinidumpBreakpadInfo");
+    match dump.get_stream::<MinidumpCrashpadInfo>() {
+        Ok(s) => {
+            let mut v = vec![];
+            s.print(&mut v).unwrap();
+            out.push(("MinidumpCrashpadInfo".into(), v));
+        }
+        Err(Error::StreamNotFound) => {}
+        Err(_) => out.push(("note:MinidumpCrashpadInfo".into(), b"MinidumpCrashpadInfo cannot print invalid data".to_vec())),
+    }
+    plain!(MinidumpMacCrashInfo, "MinidumpMacCrashInfo");
+    plain!(MinidumpMacBootargs, "MinidumpMacBootargs");
+    for (ty, name) in RAW_STREAMS {
+        if let Ok(contents) = dump.get_raw_stream(*ty as u32) {
+            let s = contents.split(|&v| v == 0).map(String::from_utf8_lossy).collect::<Vec<_>>().join("\\0\n");
+            out.push((format!("raw:{name}"), format!("Stream {name}:\n{s}\n\n").into_bytes()));
+        }
+    }
+    out
+}
+
+fn concat(secs: &Sections) -> Vec<u8> {
+    secs.iter().flat_map(|(_, b)| b.iter().copied()).collect()
+}
+
+/// Name the sections found in `actual` (the tool's `--dump` output) by matching the library's section
+/// bytes in order; sections that are absent are skipped, repeated ones are listed repeatedly, bytes that
+/// belong to no section end the list with `UNKNOWN[..]`.
+fn segment<'a, T: Deref<Target = [u8]> + 'a>(dump: &'a Minidump<'a, T>, expected: &Sections, actual: &[u8], brief: bool) -> Vec<String> {
+    let mut labels = vec![];
+    let mut pos = 0usize;
+    for (label, bytes) in expected {
+        let mut candidates: Vec<(String, Vec<u8>)> = vec![(label.clone(), bytes.clone())];
+        let mut matched = false;
+        let mut tried_variants = false;
+        loop {
+            for (l, b) in &candidates {
+                while !b.is_empty() && actual[pos..].starts_with(b) && labels.iter().filter(|x| *x == l).count() < 4 {
+                    labels.push(l.clone());
+                    pos += b.len();
+                    matched = true;
+                }
+                if matched {
+                    break;
+                }
+            }
+            if matched || tried_variants {
+                break;
+            }
+            tried_variants = true;
+            // the sections whose bytes depend on other streams: which arguments did the tool pass?
+            candidates.clear();
+            if label.starts_with("MinidumpThreadList[") {
+                for mem in [2u8, 1, 0] {
+                    for sys in [true, false] {
+                        for misc in [true, false] {
+                            if let Some(c) = thread_list_section(dump, mem, sys, misc, brief) {
+                                candidates.push(c);
+                            }
+                            if let Some(c) = thread_list_section(dump, mem, sys, misc, !brief) {
+                                candidates.push(c);
+                            }
+                        }
+                    }
+                }
+            } else if label.starts_with("MinidumpException[") {
+                for sys in [true, false] {
+                    for misc in [true, false] {
+                        if let Some(c) = exception_section(dump, sys, misc) {
+                            candidates.push(c);
+                        }
+                    }
+                }
+            } else if label.starts_with("MinidumpMemory") && label.contains("[brief=") {
+                let other = !brief;
+                let mut v = vec![];
+                if label.starts_with("MinidumpMemory64List") {
+                    if let Ok(m) = dump.get_stream::<MinidumpMemory64List<'_>>() {
+                        m.print(&mut v, other).unwrap();
+                        candidates.push((format!("MinidumpMemory64List[brief={}]", other as u8), v));
+                    }
+                } else if let Ok(m) = dump.get_stream::<MinidumpMemoryList<'_>>() {
+                    m.print(&mut v, other).unwrap();
+                    candidates.push((format!("MinidumpMemoryList[brief={}]", other as u8), v));
+                }
+            }
+            if candidates.is_empty() {
+                break;
+            }
+        }
+    }
+    if pos != actual.len() {
+        labels.push(format!("UNKNOWN[{} bytes at {}]", actual.len() - pos, pos));
+    }
+    labels
+}
+
+// ------------------------------------------------------------------------------------------------
+// The library in-process
+// ------------------------------------------------------------------------------------------------
+
+/// a report and the number of its trailing bytes a `std::io::LineWriter` (what standard output is)
+/// still holds when the printer returns
+#[derive(Default, Clone)]
+struct Rep {
+    bytes: Vec<u8>,
+    pend: usize,
+}
+
+/// how the library is to be called
+#[derive(Clone)]
+struct LibPlan {
+    recover: bool,
+    evil: Option<PathBuf>,
+    /// 0 none | 1 simple(paths) | 2 http(paths, urls, cache, tmp)
+    supplier: u8,
+    paths: Vec<PathBuf>,
+    urls: Vec<String>,
+    cache: PathBuf,
+    tmp: PathBuf,
+}
+impl LibPlan {
+    fn plain(paths: Vec<PathBuf>) -> LibPlan {
+        LibPlan { recover: false, evil: None, supplier: if paths.is_empty() { 0 } else { 1 }, paths, urls: vec![], cache: PathBuf::new(), tmp: PathBuf::new() }
+    }
 }
 
 /// What the library produces in-process for this file.
+#[derive(Default)]
 struct Lib {
     class: &'static str, // unreadable | unprocessable | ok
-    human: Vec<u8>,
-    human_brief: Vec<u8>,
-    json: Vec<u8>,
-    json_pretty: Vec<u8>,
-    dump: Vec<u8>,
-    dump_brief: Vec<u8>,
+    human: Rep,
+    human_brief: Rep,
+    json: Rep,
+    json_pretty: Rep,
+    dump: Rep,
+    dump_brief: Rep,
+    dump_labels: Vec<String>,
+    /// the system info is readable and its CPU is neither x86-64 nor arm64
+    cpu_unsupported_by_debuginfo: bool,
     panicked: Option<String>,
 }
 
-fn library(path: &Path, feat: u32, sym: u32) -> Lib {
-    let mut lib = Lib {
-        class: "unreadable",
-        human: vec![],
-        human_brief: vec![],
-        json: vec![],
-        json_pretty: vec![],
-        dump: vec![],
-        dump_brief: vec![],
-        panicked: None,
-    };
+fn with_pend(print: impl Fn(&mut dyn Write)) -> Rep {
+    let mut lw = std::io::LineWriter::new(Vec::new());
+    print(&mut lw);
+    let flushed = lw.get_ref().len();
+    let mut bytes = vec![];
+    print(&mut bytes);
+    Rep { pend: bytes.len().saturating_sub(flushed), bytes }
+}
+
+fn library(path: &Path, plan: &LibPlan) -> Lib {
+    let mut lib = Lib { class: "unreadable", ..Default::default() };
     let r = catch(|| {
+        let mut lib = Lib { class: "unreadable", ..Default::default() };
         let dump = match Minidump::read_path(path) {
             Ok(d) => d,
-            Err(_) => return ("unreadable", vec![]),
+            Err(_) => return lib,
         };
-        let mut outs: Vec<Vec<u8>> = vec![];
-        for brief in [false, true] {
-            let mut v = vec![];
-            print_minidump_dump(&dump, &mut v, brief).unwrap();
-            outs.push(v);
+        lib.class = "unprocessable";
+        if let Ok(si) = dump.get_stream::<MinidumpSystemInfo>() {
+            lib.cpu_unsupported_by_debuginfo = !matches!(si.cpu, minidump::system_info::Cpu::X86_64 | minidump::system_info::Cpu::Arm64);
         }
-        let mut options = match feat {
-            0 => ProcessorOptions::stable_basic(),
-            1 => ProcessorOptions::stable_all(),
-            _ => ProcessorOptions::unstable_all(),
-        };
-        // main.rs overrides these from the command line (not given): None / false
-        options.evil_json = None;
-        options.recover_function_args = false;
+        for brief in [false, true] {
+            let secs = lib_sections(&dump, brief);
+            let bytes = concat(&secs);
+            // the dump printers end every section with a newline except the crashpad note
+            let pend = match bytes.iter().rposition(|&b| b == b'\n') {
+                Some(i) => (bytes.len() - 1 - i).min(1023),
+                None => bytes.len().min(1023),
+            };
+            if brief {
+                lib.dump_brief = Rep { bytes, pend };
+            } else {
+                lib.dump_labels = secs.iter().map(|(l, _)| l.clone()).collect();
+                lib.dump = Rep { bytes, pend };
+            }
+        }
+        let mut options = ProcessorOptions::default();
+        options.evil_json = plan.evil.as_deref();
+        options.recover_function_args = plan.recover;
         let mut provider = MultiSymbolProvider::new();
-        // the tool merges `--symbols-path` values and positional paths, in that order
-        let (named, positional) = sym_paths(sym);
-        let all: Vec<PathBuf> = named.into_iter().chain(positional).collect();
-        if !all.is_empty() {
-            provider.add(Box::new(Symbolizer::new(simple_symbol_supplier(all))));
+        match plan.supplier {
+            1 => provider.add(Box::new(Symbolizer::new(simple_symbol_supplier(plan.paths.clone())))),
+            2 => provider.add(Box::new(Symbolizer::new(http_symbol_supplier(
+                plan.paths.clone(),
+                plan.urls.clone(),
+                plan.cache.clone(),
+                plan.tmp.clone(),
+                std::time::Duration::from_secs(30),
+            )))),
+            _ => {}
         }
         let rt = tokio::runtime::Builder::new_current_thread().enable_all().build().unwrap();
         let state = rt.block_on(minidump_processor::process_minidump_with_options(&dump, &provider, options));
-        match state {
-            Err(_) => ("unprocessable", outs),
-            Ok(state) => {
-                let mut h = vec![];
-                state.print(&mut h).unwrap();
-                let mut hb = vec![];
-                state.print_brief(&mut hb).unwrap();
-                let mut j = vec![];
-                state.print_json(&mut j, false).unwrap();
-                let mut jp = vec![];
-                state.print_json(&mut jp, true).unwrap();
-                outs.extend([h, hb, j, jp]);
-                ("ok", outs)
-            }
+        if let Ok(state) = state {
+            lib.class = "ok";
+            lib.human = with_pend(|mut w| state.print(&mut w).unwrap());
+            lib.human_brief = with_pend(|mut w| state.print_brief(&mut w).unwrap());
+            lib.json = with_pend(|mut w| state.print_json(&mut w, false).unwrap());
+            lib.json_pretty = with_pend(|mut w| state.print_json(&mut w, true).unwrap());
         }
+        lib
     });
     match r {
-        Err(msg) => {
-            lib.panicked = Some(msg);
-        }
-        Ok((class, mut outs)) => {
-            lib.class = class;
-            if outs.len() >= 2 {
-                lib.dump = std::mem::take(&mut outs[0]);
-                lib.dump_brief = std::mem::take(&mut outs[1]);
-            }
-            if outs.len() >= 6 {
-                lib.human = std::mem::take(&mut outs[2]);
-                lib.human_brief = std::mem::take(&mut outs[3]);
-                lib.json = std::mem::take(&mut outs[4]);
-                lib.json_pretty = std::mem::take(&mut outs[5]);
-            }
-        }
+        Err(msg) => lib.panicked = Some(msg),
+        Ok(l) => lib = l,
     }
     lib
+}
+
+/// per process cache of library results (key: file id + plan description)
+fn lib_cached(key: &str, compute: impl FnOnce() -> Lib) -> Arc<Lib> {
+    static CACHE: OnceLock<Mutex<HashMap<String, Arc<Lib>>>> = OnceLock::new();
+    let cache = CACHE.get_or_init(Default::default);
+    if let Some(l) = cache.lock().unwrap().get(key) {
+        return l.clone();
+    }
+    let l = Arc::new(compute());
+    cache.lock().unwrap().insert(key.to_string(), l.clone());
+    l
+}
+
+fn is_stable_file(id: &str) -> bool {
+    id.starts_with("t:") || id.starts_with("synth:") || matches!(id, "missing" | "empty" | "dir")
 }
 
 fn classify(bytes: &[u8], lib: &Lib, brief: bool, pretty: bool) -> String {
@@ -242,27 +501,27 @@ fn classify(bytes: &[u8], lib: &Lib, brief: bool, pretty: bool) -> String {
     let mut cands: Vec<(&str, &Vec<u8>)> = vec![];
     if lib.class == "ok" {
         if brief {
-            cands.push(("human-brief", &lib.human_brief));
-            cands.push(("human", &lib.human));
+            cands.push(("human-brief", &lib.human_brief.bytes));
+            cands.push(("human", &lib.human.bytes));
         } else {
-            cands.push(("human", &lib.human));
-            cands.push(("human-brief", &lib.human_brief));
+            cands.push(("human", &lib.human.bytes));
+            cands.push(("human-brief", &lib.human_brief.bytes));
         }
         if pretty {
-            cands.push(("json-pretty", &lib.json_pretty));
-            cands.push(("json", &lib.json));
+            cands.push(("json-pretty", &lib.json_pretty.bytes));
+            cands.push(("json", &lib.json.bytes));
         } else {
-            cands.push(("json", &lib.json));
-            cands.push(("json-pretty", &lib.json_pretty));
+            cands.push(("json", &lib.json.bytes));
+            cands.push(("json-pretty", &lib.json_pretty.bytes));
         }
     }
     if lib.class != "unreadable" {
         if brief {
-            cands.push(("dump-brief", &lib.dump_brief));
-            cands.push(("dump", &lib.dump));
+            cands.push(("dump-brief", &lib.dump_brief.bytes));
+            cands.push(("dump", &lib.dump.bytes));
         } else {
-            cands.push(("dump", &lib.dump));
-            cands.push(("dump-brief", &lib.dump_brief));
+            cands.push(("dump", &lib.dump.bytes));
+            cands.push(("dump-brief", &lib.dump_brief.bytes));
         }
     }
     for (name, c) in &cands {
@@ -281,21 +540,1599 @@ fn classify(bytes: &[u8], lib: &Lib, brief: bool, pretty: bool) -> String {
     format!("UNKNOWN[{} bytes, fnv {:016x}]", bytes.len(), fnv64(bytes))
 }
 
+fn flag_args(flags: &str, cyborg_file: &Path) -> Vec<String> {
+    let mut args: Vec<String> = vec![];
+    let has = |ch: char| flags.contains(ch);
+    if has('h') {
+        args.push("--human".into());
+    }
+    if has('j') {
+        args.push("--json".into());
+    }
+    if has('c') {
+        args.push("--cyborg".into());
+        args.push(cyborg_file.display().to_string());
+    }
+    if has('d') {
+        args.push("--dump".into());
+    }
+    if has('b') {
+        args.push("--brief".into());
+    }
+    if has('p') {
+        args.push("--pretty".into());
+    }
+    args
+}
+
+fn base_command() -> Command {
+    let mut c = Command::new(tool());
+    c.env("RUST_BACKTRACE", "0").env("NO_COLOR", "1").stdin(Stdio::null());
+    c
+}
+
+// ------------------------------------------------------------------------------------------------
+// kind 1: the decision table
+// ------------------------------------------------------------------------------------------------
+
+struct TabCase {
+    flags: String,
+    file: String,
+    feat: u32,
+    out: bool,
+    log: bool,
+    sym: u32,
+}
+
+fn parse_tab(case: &str) -> Option<TabCase> {
+    let f: Vec<&str> = case.split(' ').filter(|s| !s.is_empty()).collect();
+    if f.len() != 7 || f[0] != "cli" {
+        return None;
+    }
+    Some(TabCase {
+        flags: f[1].to_string(),
+        file: f[2].strip_prefix("file:")?.to_string(),
+        feat: f[3].strip_prefix("feat:")?.parse().ok()?,
+        out: f[4].strip_prefix("out:")? == "1",
+        log: f[5].strip_prefix("log:")? == "1",
+        sym: f[6].strip_prefix("sym:")?.parse().ok()?,
+    })
+}
+
+fn tab_lib(c: &TabCase, path: &Path) -> Arc<Lib> {
+    let (named, positional) = sym_paths(c.sym);
+    let all: Vec<PathBuf> = named.into_iter().chain(positional).collect();
+    let plan = LibPlan::plain(all);
+    if is_stable_file(&c.file) {
+        lib_cached(&format!("tab|{}|{}", c.file, if c.sym == 0 { 0 } else { 1 }), || library(path, &plan))
+    } else {
+        Arc::new(library(path, &plan))
+    }
+}
+
+fn tab_model_request(case: &str) -> Option<String> {
+    let c = parse_tab(case)?;
+    let dir = fresh_dir("m");
+    let path = materialise(&c.file, &dir);
+    let lib = tab_lib(&c, &path);
+    let _ = std::fs::remove_dir_all(&dir);
+    Some(format!("cli {} {}", c.flags, lib.class))
+}
+
+fn exit_label(status: &std::process::ExitStatus) -> String {
+    use std::os::unix::process::ExitStatusExt;
+    match (status.code(), status.signal()) {
+        (Some(c), _) => c.to_string(),
+        (None, Some(s)) => format!("signal:{s}"),
+        _ => "unknown".into(),
+    }
+}
+
+fn tab_exec(case: &str) -> ImplResult {
+    let mut res = ImplResult::default();
+    let Some(c) = parse_tab(case) else {
+        res.out = "bad-op".into();
+        return res;
+    };
+    let dir = fresh_dir("c");
+    let path = materialise(&c.file, &dir);
+    let lib = tab_lib(&c, &path);
+    res.tags.push(format!("input:{}", lib.class));
+    res.tags.push(format!("file:{}", c.file.split(':').next().unwrap()));
+
+    let out_file = dir.join("out.txt");
+    let cyborg_file = dir.join("cyborg.json");
+    let log_file = dir.join("log.txt");
+    // the files exist already and are LONGER than any report: `File::create` must truncate them
+    let filler = 1000
+        + [&lib.human, &lib.human_brief, &lib.json, &lib.json_pretty, &lib.dump, &lib.dump_brief].iter().map(|r| r.bytes.len()).max().unwrap_or(0);
+    if c.out {
+        std::fs::write(&out_file, vec![b'#'; filler]).unwrap();
+    }
+    let has = |ch: char| c.flags.contains(ch);
+    if has('c') && c.log {
+        std::fs::write(&cyborg_file, vec![b'#'; filler]).unwrap();
+    }
+    let mut args = flag_args(&c.flags, &cyborg_file);
+    args.push("--features".into());
+    args.push(["stable-basic", "stable-all", "unstable-all"][c.feat as usize % 3].into());
+    if c.out {
+        args.push("--output-file".into());
+        args.push(out_file.display().to_string());
+    }
+    if c.log {
+        args.push("--log-file".into());
+        args.push(log_file.display().to_string());
+    }
+    if c.sym % 2 == 0 {
+        args.push("--no-interactive".into());
+    }
+    let (named, positional) = sym_paths(c.sym);
+    for p in &named {
+        args.push("--symbols-path".into());
+        args.push(p.display().to_string());
+    }
+    args.push(path.display().to_string());
+    for p in &positional {
+        args.push(p.display().to_string());
+    }
+    let output = match base_command().args(&args).output() {
+        Ok(o) => o,
+        Err(e) => {
+            res.out = format!("cannot run tool: {e}");
+            res.oracle.push(("tool-not-runnable".into(), format!("{}: {e}", tool().display())));
+            return res;
+        }
+    };
+    let stdout = output.stdout;
+    let stderr = String::from_utf8_lossy(&output.stderr).to_string();
+    let log = std::fs::read_to_string(&log_file).unwrap_or_default();
+    let untouched = |b: &[u8]| b.len() == filler && b.iter().all(|&x| x == b'#');
+    let out_bytes = if c.out { std::fs::read(&out_file).unwrap_or_default() } else { vec![] };
+    let primary: Vec<u8> = if c.out {
+        if untouched(&out_bytes) { vec![] } else { out_bytes }
+    } else {
+        stdout.clone()
+    };
+    let cyborg: Vec<u8> = match std::fs::read(&cyborg_file) {
+        Ok(b) if untouched(&b) => vec![], // untouched filler
+        Ok(b) => b,
+        Err(_) => vec![],
+    };
+    let diag = format!("{stderr}{log}");
+    let brief = has('b');
+    let pretty = has('p');
+    let cmdline = format!("minidump-stackwalk {}", args.join(" "));
+    match output.status.code() {
+        Some(0) => {
+            let p = classify(&primary, &lib, brief, pretty);
+            let cy = classify(&cyborg, &lib, brief, pretty);
+            res.out = format!("exit0 primary:{p} cyborg:{cy}");
+            res.nontrivial = true;
+            if p.starts_with("UNKNOWN") || cy.starts_with("UNKNOWN") {
+                let mut detail = format!("{cmdline}: primary={p} cyborg={cy}; library class {}", lib.class);
+                if has('d') {
+                    if let Ok(dump) = Minidump::read_path(&path) {
+                        let exp = lib_sections(&dump, brief);
+                        let got = segment(&dump, &exp, &primary, brief);
+                        detail.push_str(&format!("; sections printed: {got:?}; library composition: {:?}", exp.iter().map(|(l, _)| l).collect::<Vec<_>>()));
+                    }
+                }
+                res.oracle.push(("report-differs-from-library".into(), detail));
+            }
+            if c.out && !stdout.is_empty() {
+                res.oracle.push(("stdout-not-empty-with-output-file".into(), format!("{cmdline}: {} bytes on stdout", stdout.len())));
+            }
+            if p == "-" && cy == "-" {
+                res.oracle.push(("exit0-without-report".into(), cmdline.clone()));
+            }
+        }
+        Some(1) => {
+            res.out = "exit1".into();
+            if !primary.is_empty() || !stdout.is_empty() || !cyborg.is_empty() {
+                res.oracle.push((
+                    "failure-wrote-output".into(),
+                    format!("{cmdline}: exit 1 but primary={}B stdout={}B cyborg={}B", primary.len(), stdout.len(), cyborg.len()),
+                ));
+            }
+            if diag.trim().is_empty() {
+                res.oracle.push(("failure-without-diagnostic".into(), cmdline.clone()));
+            }
+        }
+        Some(2) => {
+            res.out = "usage".into();
+            if !primary.is_empty() || !stdout.is_empty() || !cyborg.is_empty() {
+                res.oracle.push(("usage-error-wrote-output".into(), cmdline.clone()));
+            }
+            if stderr.trim().is_empty() {
+                res.oracle.push(("usage-error-without-diagnostic".into(), cmdline.clone()));
+            }
+        }
+        _ => {
+            res.out = format!("ABNORMAL {}", exit_label(&output.status));
+            let tail: String = diag.lines().rev().take(3).collect::<Vec<_>>().join(" | ");
+            res.oracle.push(("abnormal-exit".into(), format!("{cmdline}: status {:?} ({tail})", output.status)));
+        }
+    }
+    if let Some(msg) = &lib.panicked {
+        res.oracle.push(("library-panics-on-file".into(), format!("file {}: {msg}", c.file)));
+    }
+    let _ = std::fs::remove_dir_all(&dir);
+    res
+}
+
+// ------------------------------------------------------------------------------------------------
+// kind 2: `main` in a described world
+// ------------------------------------------------------------------------------------------------
+
+#[derive(Clone, PartialEq)]
+enum So {
+    Ok,
+    Full,
+    Closed,
+    Cap(u64),
+}
+
+struct IoCase {
+    flags: String,
+    verbose_off: bool,
+    help_md: bool,
+    local_debuginfo: bool,
+    input: String,
+    cy: Option<String>,
+    out: Option<String>,
+    log: Option<String>,
+    so: So,
+    so_text: String,
+    lim: Option<u64>,
+    fs: Vec<(String, String)>, // id, kind
+    fs_text: String,
+}
+
+fn opt_id(s: &str) -> Option<String> {
+    if s == "-" { None } else { Some(s.to_string()) }
+}
+
+fn parse_io(case: &str) -> Option<IoCase> {
+    let f: Vec<&str> = case.split(' ').filter(|s| !s.is_empty()).collect();
+    if f.len() != 13 || f[0] != "cli" || f[1] != "io" {
+        return None;
+    }
+    let so_text = f[10].strip_prefix("so:")?.to_string();
+    let so = match so_text.as_str() {
+        "ok" => So::Ok,
+        "full" => So::Full,
+        "closed" => So::Closed,
+        s => So::Cap(s.strip_prefix("cap:")?.parse().ok()?),
+    };
+    let lim_s = f[11].strip_prefix("lim:")?;
+    let lim = if lim_s == "-" { None } else { Some(lim_s.parse().ok()?) };
+    let fs_text = f[12].strip_prefix("fs:")?.to_string();
+    let mut fs = vec![];
+    if fs_text != "-" {
+        for item in fs_text.split(';').filter(|s| !s.is_empty()) {
+            let (id, kind) = item.split_once('=')?;
+            fs.push((id.to_string(), kind.to_string()));
+        }
+    }
+    Some(IoCase {
+        flags: f[2].to_string(),
+        verbose_off: f[3].strip_prefix("v:")? == "1",
+        help_md: f[4].strip_prefix("hm:")? == "1",
+        local_debuginfo: f[5].strip_prefix("lu:")? == "1",
+        input: f[6].strip_prefix("in:")?.to_string(),
+        cy: opt_id(f[7].strip_prefix("cy:")?),
+        out: opt_id(f[8].strip_prefix("out:")?),
+        log: opt_id(f[9].strip_prefix("log:")?),
+        so,
+        so_text,
+        lim,
+        fs,
+        fs_text,
+    })
+}
+
+fn filler_bytes(len: usize, seed: usize) -> Vec<u8> {
+    (0..len).map(|i| ((seed + i * 7 + i / 251) % 251) as u8).collect()
+}
+
+fn real_path(id: &str, dir: &Path) -> PathBuf {
+    match id {
+        "F" => PathBuf::from("/dev/full"),
+        "Z" => PathBuf::from("/dev/null"),
+        "N" => dir.join("nodir").join("x"),
+        _ => dir.join(id),
+    }
+}
+
+fn help_markdown() -> &'static Vec<u8> {
+    static M: OnceLock<Vec<u8>> = OnceLock::new();
+    M.get_or_init(|| base_command().args(["--help-markdown", "x"]).output().map(|o| o.stdout).unwrap_or_default())
+}
+
+fn io_lib(c: &IoCase, dir: &Path) -> (Arc<Lib>, PathBuf) {
+    let path = materialise(&c.input, dir);
+    let plan = LibPlan::plain(vec![]);
+    let lib = if is_stable_file(&c.input) {
+        lib_cached(&format!("tab|{}|0", c.input), || library(&path, &plan))
+    } else {
+        Arc::new(library(&path, &plan))
+    };
+    (lib, path)
+}
+
+fn rep_field(tag: &str, r: Option<&Rep>) -> String {
+    match r {
+        Some(r) => format!("{tag}:{}:{}", r.pend, hex(&r.bytes)),
+        None => format!("{tag}:0:-"),
+    }
+}
+
+fn io_model_request(case: &str) -> Option<String> {
+    let c = parse_io(case)?;
+    let dir = fresh_dir("m");
+    let (lib, _) = io_lib(&c, &dir);
+    let _ = std::fs::remove_dir_all(&dir);
+    if lib.panicked.is_some() {
+        return None;
+    }
+    let has = |ch: char| c.flags.contains(ch);
+    let (h, j, d) = if lib.class == "ok" && !has('d') {
+        (Some(if has('b') { &lib.human_brief } else { &lib.human }), Some(if has('p') { &lib.json_pretty } else { &lib.json }), None)
+    } else if lib.class != "unreadable" && has('d') {
+        (None, None, Some(if has('b') { &lib.dump_brief } else { &lib.dump }))
+    } else {
+        (None, None, None)
+    };
+    let m = Rep { bytes: help_markdown().clone(), pend: 0 };
+    let id = |o: &Option<String>| o.clone().unwrap_or_else(|| "-".into());
+    // `localUnsupported` of the model: the flag is given and the dump's CPU is not one main.rs lets through
+    let lu = c.local_debuginfo && lib.cpu_unsupported_by_debuginfo;
+    Some(format!(
+        "cli io {} v:{} hm:{} lu:{} in:{} cy:{} out:{} log:{} so:{} lim:{} fs:{} {} {} {} {}",
+        c.flags,
+        c.verbose_off as u8,
+        c.help_md as u8,
+        lu as u8,
+        lib.class,
+        id(&c.cy),
+        id(&c.out),
+        id(&c.log),
+        c.so_text,
+        c.lim.map(|n| n.to_string()).unwrap_or_else(|| "-".into()),
+        c.fs_text,
+        rep_field("H", h),
+        rep_field("J", j),
+        rep_field("D", d),
+        rep_field("M", if c.help_md { Some(&m) } else { None }),
+    ))
+}
+
+/// the diagnostics on standard error, by the names the model uses
+fn diag_names(stderr: &str) -> String {
+    let mut names: Vec<&str> = vec![];
+    for line in stderr.lines() {
+        let n = if line.starts_with("Error: ") {
+            "io-error"
+        } else if line.starts_with("error:") {
+            "usage"
+        } else if line.contains("Humans must be hideous") {
+            "pretty-invalid"
+        } else if line.contains("Robots cannot be brief") {
+            "brief-invalid"
+        } else if line.contains("Error reading dump") {
+            "read-error"
+        } else if line.contains("Error processing dump") || line.contains("Error getting system info") {
+            "process-error"
+        } else if line.contains("Local debug info is only supported") {
+            "local-debuginfo-error"
+        } else if line.contains("Panic - ") {
+            "panic"
+        } else if names.contains(&"usage") || line.trim().is_empty() {
+            continue; // the rest of clap's message
+        } else {
+            "other"
+        };
+        if names.last() != Some(&n) {
+            names.push(n);
+        }
+    }
+    if names.is_empty() { "-".into() } else { names.join("+") }
+}
+
+fn io_exec(case: &str) -> ImplResult {
+    let mut res = ImplResult::default();
+    let Some(c) = parse_io(case) else {
+        res.out = "bad-op".into();
+        return res;
+    };
+    let dir = fresh_dir("io");
+    let (lib, input_path) = io_lib(&c, &dir);
+    res.tags.push(format!("io-input:{}", lib.class));
+    res.tags.push(format!("io-so:{}", c.so_text.split(':').next().unwrap()));
+    // the world
+    for (id, kind) in &c.fs {
+        let p = real_path(id, &dir);
+        let k: Vec<&str> = kind.split(':').collect();
+        match k[0] {
+            "file" => {
+                let len = k.get(1).and_then(|s| s.parse().ok()).unwrap_or(0);
+                let seed = k.get(2).and_then(|s| s.parse().ok()).unwrap_or(0);
+                std::fs::write(&p, filler_bytes(len, seed)).unwrap();
+            }
+            "dir" => std::fs::create_dir_all(&p).unwrap(),
+            _ => {} // full / null / nodir: the fixed ids F, Z, N
+        }
+    }
+    let mut args = flag_args(&c.flags, &c.cy.as_deref().map(|id| real_path(id, &dir)).unwrap_or_default());
+    if c.flags.contains('c') != c.cy.is_some() {
+        res.out = "bad-op".into();
+        return res;
+    }
+    if c.help_md {
+        args.push("--help-markdown".into());
+    }
+    if c.verbose_off {
+        args.push("--verbose".into());
+        args.push("off".into());
+    }
+    if c.local_debuginfo {
+        args.push("--use-local-debuginfo".into());
+    }
+    if let Some(id) = &c.out {
+        args.push("--output-file".into());
+        args.push(real_path(id, &dir).display().to_string());
+    }
+    if let Some(id) = &c.log {
+        args.push("--log-file".into());
+        args.push(real_path(id, &dir).display().to_string());
+    }
+    args.push("--no-interactive".into());
+    args.push(input_path.display().to_string());
+    let cmdline = format!(
+        "{}minidump-stackwalk {}{}",
+        c.lim.map(|n| format!("(ulimit -f: {n} bytes, SIGXFSZ ignored) ")).unwrap_or_default(),
+        args.join(" "),
+        match &c.so {
+            So::Ok => "",
+            So::Full => " >/dev/full",
+            So::Closed => " | (reader gone)",
+            So::Cap(_) => " >regular-file",
+        }
+    );
+    let mut cmd = match c.lim {
+        None => {
+            let mut cmd = base_command();
+            cmd.args(&args);
+            cmd
+        }
+        Some(n) => {
+            let mut cmd = Command::new("sh");
+            cmd.env("RUST_BACKTRACE", "0").env("NO_COLOR", "1").stdin(Stdio::null());
+            cmd.arg("-c").arg("trap '' XFSZ; exec prlimit --fsize=\"$0\" \"$@\"").arg(n.to_string()).arg(tool()).args(&args);
+            cmd
+        }
+    };
+    let stdout_file = dir.join("stdout.bin");
+    match &c.so {
+        So::Ok => {
+            cmd.stdout(Stdio::piped());
+        }
+        So::Full => {
+            cmd.stdout(std::fs::OpenOptions::new().write(true).open("/dev/full").unwrap());
+        }
+        So::Closed => {
+            let (r, w) = std::io::pipe().unwrap();
+            drop(r);
+            cmd.stdout(w);
+        }
+        So::Cap(_) => {
+            cmd.stdout(std::fs::File::create(&stdout_file).unwrap());
+        }
+    }
+    cmd.stderr(Stdio::piped());
+    let output = match cmd.spawn().and_then(|ch| ch.wait_with_output()) {
+        Ok(o) => o,
+        Err(e) => {
+            res.out = format!("cannot run tool: {e}");
+            res.oracle.push(("tool-not-runnable".into(), format!("{}: {e}", tool().display())));
+            return res;
+        }
+    };
+    drop(cmd);
+    let stdout: Vec<u8> = match &c.so {
+        So::Ok => output.stdout.clone(),
+        So::Cap(_) => std::fs::read(&stdout_file).unwrap_or_default(),
+        _ => vec![],
+    };
+    let stderr = String::from_utf8_lossy(&output.stderr).to_string();
+    // the files afterwards
+    let mut ids: Vec<String> = c.fs.iter().map(|(i, _)| i.clone()).collect();
+    for o in [&c.cy, &c.out, &c.log].into_iter().flatten() {
+        ids.push(o.clone());
+    }
+    ids.sort();
+    ids.dedup();
+    let mut states = vec![];
+    for id in &ids {
+        let p = real_path(id, &dir);
+        let log_only = c.log.as_deref() == Some(id) && c.cy.as_deref() != Some(id) && c.out.as_deref() != Some(id);
+        let st = match id.as_str() {
+            "F" => "full".to_string(),
+            "Z" => "null".to_string(),
+            _ => match std::fs::metadata(&p) {
+                Err(_) => if id == "N" || !p.parent().map(|d| d.exists()).unwrap_or(true) { "nodir".into() } else { "absent".into() },
+                Ok(m) if m.is_dir() => "dir".into(),
+                Ok(_) => {
+                    let b = std::fs::read(&p).unwrap_or_default();
+                    if log_only {
+                        if b.is_empty() { "log:empty".into() } else { "log:nonempty".into() }
+                    } else {
+                        format!("file:{}:{:016x}", b.len(), fnv64(&b))
+                    }
+                }
+            },
+        };
+        states.push(format!("{id}={st}"));
+    }
+    let se = diag_names(&stderr);
+    let exit = exit_label(&output.status);
+    res.out = format!(
+        "exit:{exit} so:{}:{:016x} se:{se} f:{}",
+        stdout.len(),
+        fnv64(&stdout),
+        if states.is_empty() { "-".to_string() } else { states.join(";") }
+    );
+    res.nontrivial = lib.class != "unreadable" || c.help_md;
+
+    // ---- the property's own oracle, on the implementation's output (independent of the Lean model) ----
+    let has = |ch: char| c.flags.contains(ch);
+    let primary: Option<Vec<u8>> = match &c.out {
+        None => Some(stdout.clone()),
+        Some(id) if !matches!(id.as_str(), "F" | "Z" | "D" | "N") => std::fs::read(real_path(id, &dir)).ok(),
+        _ => None,
+    };
+    let primary_preexisting = c.out.as_ref().and_then(|id| c.fs.iter().find(|(i, _)| i == id)).map(|(_, k)| {
+        let k: Vec<&str> = k.split(':').collect();
+        filler_bytes(k.get(1).and_then(|s| s.parse().ok()).unwrap_or(0), k.get(2).and_then(|s| s.parse().ok()).unwrap_or(0))
+    });
+    let due_primary: Vec<u8> = if has('d') {
+        if has('b') { lib.dump_brief.bytes.clone() } else { lib.dump.bytes.clone() }
+    } else if has('j') {
+        if has('p') { lib.json_pretty.bytes.clone() } else { lib.json.bytes.clone() }
+    } else if has('b') {
+        lib.human_brief.bytes.clone()
+    } else {
+        lib.human.bytes.clone()
+    };
+    let due_cyborg = if has('p') { &lib.json_pretty.bytes } else { &lib.json.bytes };
+    let same_path = (c.cy.is_some() && c.cy == c.out) || (c.log.is_some() && (c.log == c.out || c.log == c.cy));
+    let observable_stdout = matches!(c.so, So::Ok | So::Cap(_));
+    match exit.as_str() {
+        "0" if !c.help_md => {
+            // "exits with status 0 having written to its primary output exactly the report"
+            if let Some(p) = &primary {
+                if (c.out.is_some() || observable_stdout) && *p != due_primary {
+                    let class = if same_path {
+                        "same-path-clobbers-output"
+                    } else if c.out.is_none() && matches!(c.so, So::Cap(_)) && due_primary.starts_with(p) {
+                        "exit0-with-truncated-report-on-stdout"
+                    } else {
+                        "exit0-primary-is-not-the-report"
+                    };
+                    res.oracle.push((class.into(), format!("{cmdline}: status 0, the primary output holds {} bytes, the library's report has {} (pre-existing file: {} bytes)", p.len(), due_primary.len(), primary_preexisting.as_ref().map(|b| b.len()).unwrap_or(0))));
+                }
+            }
+            if c.so == So::Closed && c.out.is_none() {
+                res.tags.push("io:broken-pipe-exit0".into());
+            }
+            if let Some(id) = &c.cy {
+                if !matches!(id.as_str(), "F" | "Z") && !same_path && !(c.so == So::Closed && c.out.is_none()) {
+                    let b = std::fs::read(real_path(id, &dir)).unwrap_or_default();
+                    if b != *due_cyborg {
+                        res.oracle.push(("exit0-cyborg-is-not-the-json-report".into(), format!("{cmdline}: the cyborg file holds {} bytes, the library's JSON report has {}", b.len(), due_cyborg.len())));
+                    }
+                }
+            }
+        }
+        "0" => {}
+        "1" | "2" => {
+            // "… or exits with status 1 with a diagnostic on standard error and nothing on the primary output"
+            let got: Vec<u8> = match (&c.out, &primary, &primary_preexisting) {
+                (None, Some(p), _) => p.clone(),
+                (Some(_), Some(p), Some(old)) if p == old => vec![], // never touched
+                (Some(_), Some(p), _) => p.clone(),
+                _ => vec![],
+            };
+            if !got.is_empty() && !c.help_md {
+                let writer_limited = c.lim.is_some() || matches!(c.so, So::Cap(_));
+                let class = if has('c') && got == (if has('b') { &lib.human_brief.bytes } else { &lib.human.bytes }).as_slice() {
+                    "exit1-after-complete-report-on-primary"
+                } else if writer_limited && due_primary.starts_with(&got) {
+                    "exit1-partial-report-primary-writer-failed" // inherent: the primary itself refused the rest
+                } else {
+                    "failure-wrote-output"
+                };
+                if class != "exit1-partial-report-primary-writer-failed" {
+                    res.oracle.push((class.into(), format!("{cmdline}: status {exit} with {} bytes on the primary output", got.len())));
+                } else {
+                    res.tags.push("io:partial-primary".into());
+                }
+            }
+            let log_text = c.log.as_ref().and_then(|id| std::fs::read_to_string(real_path(id, &dir)).ok()).unwrap_or_default();
+            if stderr.trim().is_empty() && log_text.trim().is_empty() && !c.verbose_off {
+                res.oracle.push(("failure-without-diagnostic".into(), cmdline.clone()));
+            }
+        }
+        other if c.help_md => {
+            // the hidden developer option `--help-markdown` is outside the property's quantifier (it is not
+            // an output option for a minidump): its panic on a failing stdout is modelled (status 101) and
+            // compared with the model, not judged
+            res.tags.push(format!("io:help-markdown-status-{other}"));
+        }
+        other => {
+            res.oracle.push(("abnormal-exit".into(), format!("{cmdline}: status {other} ({})", stderr.lines().last().unwrap_or(""))));
+        }
+    }
+    if let Some(msg) = &lib.panicked {
+        res.oracle.push(("library-panics-on-file".into(), format!("file {}: {msg}", c.input)));
+    }
+    let _ = std::fs::remove_dir_all(&dir);
+    res
+}
+
+// ------------------------------------------------------------------------------------------------
+// kind 3: processing options
+// ------------------------------------------------------------------------------------------------
+
+/// a copy of testdata/symbols in which the crashing function of test.dmp carries an argument list, so
+/// that `recover_function_args` changes the human report
+fn crafted_symbols() -> &'static PathBuf {
+    static D: OnceLock<PathBuf> = OnceLock::new();
+    D.get_or_init(|| {
+        let dst = scratch().join("symbols-crafted");
+        let rel = "test_app.pdb/5A9832E5287241C1838ED98914E9B7FF1/test_app.sym";
+        let src = repo().join("testdata/symbols").join(rel);
+        std::fs::create_dir_all(dst.join(rel).parent().unwrap()).unwrap();
+        let text = std::fs::read_to_string(&src).unwrap_or_default();
+        let text = text.replace("`anonymous namespace'::CrashFunction\n", "`anonymous namespace'::CrashFunction(int, void*)\n");
+        std::fs::write(dst.join(rel), text).unwrap();
+        dst
+    })
+}
+
+/// a loopback HTTP server that serves the repository's ORIGINAL symbols (Tecken layout) — a local path
+/// holding the crafted ones must win over it; returns its base URL
+fn symbol_server() -> &'static String {
+    static U: OnceLock<String> = OnceLock::new();
+    U.get_or_init(|| {
+        use std::io::{BufRead, BufReader, Read};
+        let root = repo().join("testdata/symbols");
+        let listener = std::net::TcpListener::bind("127.0.0.1:0").unwrap();
+        let port = listener.local_addr().unwrap().port();
+        std::thread::spawn(move || {
+            for stream in listener.incoming() {
+                let Ok(mut stream) = stream else { continue };
+                let root = root.clone();
+                std::thread::spawn(move || {
+                    let _ = stream.set_read_timeout(Some(std::time::Duration::from_secs(5)));
+                    let mut reader = BufReader::new(stream.try_clone().unwrap());
+                    loop {
+                        let mut line = String::new();
+                        if reader.read_line(&mut line).unwrap_or(0) == 0 {
+                            return;
+                        }
+                        let mut parts = line.split_whitespace();
+                        let method = parts.next().unwrap_or("").to_string();
+                        let target = parts.next().unwrap_or("/").to_string();
+                        let mut content_length = 0usize;
+                        loop {
+                            let mut h = String::new();
+                            if reader.read_line(&mut h).unwrap_or(0) == 0 || h == "\r\n" || h == "\n" {
+                                break;
+                            }
+                            if let Some(v) = h.to_ascii_lowercase().strip_prefix("content-length:") {
+                                content_length = v.trim().parse().unwrap_or(0);
+                            }
+                        }
+                        let mut body = vec![0u8; content_length];
+                        let _ = reader.read_exact(&mut body);
+                        let rel = target.split('?').next().unwrap_or("").trim_start_matches('/').to_string();
+                        let file = root.join(&rel);
+                        let ok = !rel.contains("..") && file.is_file();
+                        let payload = if ok { std::fs::read(&file).unwrap_or_default() } else { b"not found".to_vec() };
+                        let head = format!(
+                            "HTTP/1.1 {}\r\nContent-Length: {}\r\nContent-Type: text/plain\r\n\r\n",
+                            if ok { "200 OK" } else { "404 Not Found" },
+                            payload.len()
+                        );
+                        if stream.write_all(head.as_bytes()).is_err() {
+                            return;
+                        }
+                        if method != "HEAD" && stream.write_all(&payload).is_err() {
+                            return;
+                        }
+                    }
+                });
+            }
+        });
+        format!("http://127.0.0.1:{port}/")
+    })
+}
+
+struct OptCase {
+    feat: u32,
+    rec: bool,
+    evil: bool,
+    sym: u32,
+    url: bool,
+    local: bool,
+    noint: bool,
+    mode: char,
+}
+
+fn parse_opt(case: &str) -> Option<OptCase> {
+    let f: Vec<&str> = case.split(' ').filter(|s| !s.is_empty()).collect();
+    if f.len() != 10 || f[0] != "cli" || f[1] != "opt" {
+        return None;
+    }
+    Some(OptCase {
+        feat: f[2].strip_prefix("feat:")?.parse().ok()?,
+        rec: f[3].strip_prefix("rec:")? == "1",
+        evil: f[4].strip_prefix("evil:")? == "1",
+        sym: f[5].strip_prefix("sym:")?.parse().ok()?,
+        url: f[6].strip_prefix("url:")? == "1",
+        local: f[7].strip_prefix("local:")? == "1",
+        noint: f[8].strip_prefix("noint:")? == "1",
+        mode: f[9].strip_prefix("mode:")?.chars().next()?,
+    })
+}
+
+const FEATURES: [&str; 4] = ["stable-basic", "stable-all", "unstable-all", "most-unstable"];
+
+fn ids_of(n: usize, first: char) -> String {
+    if n == 0 { "-".into() } else { (0..n).map(|i| ((first as u8 + i as u8) as char).to_string()).collect::<Vec<_>>().join(",") }
+}
+
+fn opt_model_request(case: &str) -> Option<String> {
+    let c = parse_opt(case)?;
+    if c.local {
+        // the harness is built without minidump-unwind's `debuginfo` feature: the report of a run with
+        // the DebugInfoSymbolProvider cannot be recomputed in-process; only the exit is checked
+        return None;
+    }
+    let (named, positional) = sym_paths_in(crafted_symbols().clone(), c.sym);
+    // named paths are a,b,…; positional ones p,q,…
+    Some(format!(
+        "cli opts {} evil:{} rec:{} local:{} url:{} cache:1 tmp:1 to:30 named:{} legacy:{} noint:{} json:{} out:0",
+        FEATURES[c.feat as usize % 4],
+        c.evil as u8,
+        c.rec as u8,
+        c.local as u8,
+        c.url as u8,
+        ids_of(named.len(), 'a'),
+        ids_of(positional.len(), 'p'),
+        c.noint as u8,
+        (c.mode != 'h') as u8,
+    ))
+}
+
+/// the observable part of a plan line: which options the report was computed with
+fn opt_observable(line: &str) -> String {
+    line.split(' ').filter(|t| !(t.starts_with("stat:") || t.starts_with("int:") || t.starts_with("local:"))).collect::<Vec<_>>().join(" ")
+}
+
+fn opt_exec(case: &str) -> ImplResult {
+    let mut res = ImplResult::default();
+    let Some(c) = parse_opt(case) else {
+        res.out = "bad-op".into();
+        return res;
+    };
+    let dir = fresh_dir("o");
+    // `local:1`: an x86 dump (sym 0/1) or a macOS x86-64 dump (other sym values)
+    let dump_path = repo().join(if c.local && c.sym >= 2 { "testdata/pipeline-inlines-macos-segv.dmp" } else { "testdata/test.dmp" });
+    let evil_path = repo().join("testdata/evil.json");
+    let (named, positional) = sym_paths_in(crafted_symbols().clone(), c.sym);
+    let cache = dir.join("cache");
+    let tmp = dir.join("tmp");
+    std::fs::create_dir_all(&cache).unwrap();
+    std::fs::create_dir_all(&tmp).unwrap();
+    let cyborg_file = dir.join("cyborg.json");
+    let mut args: Vec<String> = vec![];
+    match c.mode {
+        'j' => args.push("--json".into()),
+        'c' => {
+            args.push("--cyborg".into());
+            args.push(cyborg_file.display().to_string());
+        }
+        _ => {}
+    }
+    args.push("--features".into());
+    args.push(FEATURES[c.feat as usize % 4].into());
+    if c.rec {
+        args.push("--recover-function-args".into());
+    }
+    if c.evil {
+        args.push("--evil-json".into());
+        args.push(evil_path.display().to_string());
+    }
+    if c.local {
+        args.push("--use-local-debuginfo".into());
+    }
+    if c.noint {
+        args.push("--no-interactive".into());
+    }
+    if c.url {
+        args.push("--symbols-url".into());
+        args.push(symbol_server().clone());
+        args.push("--symbols-cache".into());
+        args.push(cache.display().to_string());
+        args.push("--symbols-tmp".into());
+        args.push(tmp.display().to_string());
+        args.push("--symbols-download-timeout-secs".into());
+        args.push("30".into());
+    }
+    for p in &named {
+        args.push("--symbols-path".into());
+        args.push(p.display().to_string());
+    }
+    args.push(dump_path.display().to_string());
+    for p in &positional {
+        args.push(p.display().to_string());
+    }
+    let cmdline = format!("minidump-stackwalk {}", args.join(" "));
+    let output = match base_command().args(&args).output() {
+        Ok(o) => o,
+        Err(e) => {
+            res.out = format!("cannot run tool: {e}");
+            res.oracle.push(("tool-not-runnable".into(), format!("{}: {e}", tool().display())));
+            return res;
+        }
+    };
+    let stderr = String::from_utf8_lossy(&output.stderr).to_string();
+    match output.status.code() {
+        Some(2) => {
+            res.out = "usage".into();
+            if !output.stdout.is_empty() {
+                res.oracle.push(("usage-error-wrote-output".into(), cmdline));
+            }
+            let _ = std::fs::remove_dir_all(&dir);
+            return res;
+        }
+        Some(0) if c.local => {
+            res.out = "ok-local".into();
+            res.nontrivial = true;
+            if output.stdout.is_empty() {
+                res.oracle.push(("exit0-without-report".into(), cmdline));
+            }
+            let _ = std::fs::remove_dir_all(&dir);
+            return res;
+        }
+        Some(1) if c.local && c.sym < 2 && output.stdout.is_empty() && stderr.contains("Local debug info is only supported") => {
+            // an x86 dump: refused with a diagnostic (fix fb88910); the world side is checked by the io cases
+            res.out = "exit1-local-unsupported".into();
+            let _ = std::fs::remove_dir_all(&dir);
+            return res;
+        }
+        Some(0) => {}
+        _ => {
+            res.out = format!("ABNORMAL {}", exit_label(&output.status));
+            let class = if c.local && stderr.contains("debuginfo.rs") && stderr.contains("not implemented") {
+                "use-local-debuginfo-panics-on-unsupported-cpu"
+            } else {
+                "abnormal-exit"
+            };
+            res.oracle.push((class.into(), format!("{cmdline}: status {:?} ({})", output.status, stderr.lines().last().unwrap_or(""))));
+            let _ = std::fs::remove_dir_all(&dir);
+            return res;
+        }
+    }
+    res.nontrivial = true;
+    let all: Vec<PathBuf> = named.iter().cloned().chain(positional.iter().cloned()).collect();
+    // the report of the library for a candidate plan, in the shape the tool was asked for
+    let lib_cache2 = dir.join("cache-lib");
+    let lib_tmp2 = dir.join("tmp-lib");
+    let render = |recover: bool, evil: bool, supplier: u8, paths: &Vec<PathBuf>| -> (Vec<u8>, Vec<u8>) {
+        let _ = std::fs::remove_dir_all(&lib_cache2);
+        std::fs::create_dir_all(&lib_cache2).unwrap();
+        std::fs::create_dir_all(&lib_tmp2).unwrap();
+        let plan = LibPlan {
+            recover,
+            evil: if evil { Some(evil_path.clone()) } else { None },
+            supplier,
+            paths: paths.clone(),
+            urls: if supplier == 2 { vec![symbol_server().clone()] } else { vec![] },
+            cache: lib_cache2.clone(),
+            tmp: lib_tmp2.clone(),
+        };
+        let key = format!("opt|{recover}|{evil}|{supplier}|{}", paths.iter().map(|p| p.display().to_string()).collect::<Vec<_>>().join(","));
+        let lib = if supplier == 2 { Arc::new(library(&dump_path, &plan)) } else { lib_cached(&key, || library(&dump_path, &plan)) };
+        match c.mode {
+            'j' => (lib.json.bytes.clone(), vec![]),
+            'c' => (lib.human.bytes.clone(), lib.json.bytes.clone()),
+            _ => (lib.human.bytes.clone(), vec![]),
+        }
+    };
+    let got = (output.stdout.clone(), std::fs::read(&cyborg_file).unwrap_or_default());
+    let label = |recover: bool, evil: bool, supplier: u8, n_named: usize, n_pos: usize, order_swapped: bool| -> String {
+        let ids = if order_swapped {
+            [ids_of(n_pos, 'p'), ids_of(n_named, 'a')].iter().filter(|s| *s != "-").cloned().collect::<Vec<_>>().join(",")
+        } else {
+            [ids_of(n_named, 'a'), ids_of(n_pos, 'p')].iter().filter(|s| *s != "-").cloned().collect::<Vec<_>>().join(",")
+        };
+        let ids = if ids.is_empty() { "-".to_string() } else { ids };
+        let sup = match supplier {
+            0 => "none".to_string(),
+            1 => format!("simple:{ids}"),
+            _ => format!("http:{ids}:1:CACHE:TMP:30"),
+        };
+        format!("ok evil:{} rec:{} sup:{sup}", evil as u8, recover as u8)
+    };
+    // the plan main.rs is expected to build (hand-mirrored; the Lean model `plan` must say the same):
+    // "unstable-all enables: --recover-function-args", the flag only adds
+    let exp_sup: u8 = if c.url { 2 } else if !all.is_empty() { 1 } else { 0 };
+    let exp_rec = c.rec || c.feat == 2;
+    let mut named_as: Option<String> = None;
+    if render(exp_rec, c.evil, exp_sup, &all) == got {
+        named_as = Some(label(exp_rec, c.evil, exp_sup, named.len(), positional.len(), false));
+    } else {
+        // which plan DID the tool use?
+        let swapped: Vec<PathBuf> = positional.iter().cloned().chain(named.iter().cloned()).collect();
+        let alts: Vec<(bool, bool, u8, Vec<PathBuf>, usize, usize, bool)> = vec![
+            (!exp_rec, c.evil, exp_sup, all.clone(), named.len(), positional.len(), false),
+            (exp_rec, !c.evil, exp_sup, all.clone(), named.len(), positional.len(), false),
+            (exp_rec, c.evil, exp_sup, named.clone(), named.len(), 0, false),
+            (exp_rec, c.evil, exp_sup, positional.clone(), 0, positional.len(), false),
+            (exp_rec, c.evil, exp_sup, swapped, named.len(), positional.len(), true),
+            (exp_rec, c.evil, exp_sup, vec![], 0, 0, false),
+            (exp_rec, c.evil, 0, vec![], 0, 0, false),
+            (exp_rec, c.evil, 1, all.clone(), named.len(), positional.len(), false),
+        ];
+        for (r, e, s, paths, nn, np, sw) in alts {
+            if s == 1 && paths.is_empty() {
+                continue;
+            }
+            if render(r, e, s, &paths) == got {
+                named_as = Some(label(r, e, s, nn, np, sw));
+                break;
+            }
+        }
+    }
+    match named_as {
+        Some(l) => res.out = l,
+        None => res.out = format!("UNKNOWN-PLAN[stdout {} bytes fnv {:016x}]", got.0.len(), fnv64(&got.0)),
+    }
+    let expected_label = label(exp_rec, c.evil, exp_sup, named.len(), positional.len(), false);
+    if res.out != expected_label {
+        // the documentation of --features: "unstable-all enables: --recover-function-args"
+        let class = if c.feat == 2 && !c.rec && res.out == label(false, c.evil, exp_sup, named.len(), positional.len(), false) {
+            "features-unstable-all-does-not-enable-recover-function-args"
+        } else {
+            "report-differs-from-library-with-the-given-options"
+        };
+        res.oracle.push((
+            class.into(),
+            format!("{cmdline}: the report is not what the library produces for these options (expected plan `{expected_label}`, the tool behaved like `{}`)", res.out),
+        ));
+    }
+    if !stderr.trim().is_empty() {
+        res.oracle.push(("success-with-diagnostic".into(), format!("{cmdline}: status 0 but standard error says: {}", stderr.lines().next().unwrap_or(""))));
+    }
+    res.tags.push(format!("opt-feat:{}", c.feat));
+    res.tags.push(format!("opt-sup:{exp_sup}"));
+    let _ = std::fs::remove_dir_all(&dir);
+    res
+}
+
+// ------------------------------------------------------------------------------------------------
+// kind 4: `--dump` on synthesized dumps containing every stream type in combinations
+// ------------------------------------------------------------------------------------------------
+
+/// the stream kinds the generator knows (index = bit in the masks)
+const KINDS: [&str; 25] = [
+    "ThreadList", "ModuleList", "UnloadedModuleList", "HandleData", "MemoryList", "Memory64List", "MemoryInfoList", "LinuxMaps",
+    "ThreadInfoList", "SystemInfo", "MiscInfo", "MacCrashInfo", "MacBootargs", "LinuxLsbRelease", "LinuxEnviron", "LinuxProcStatus",
+    "MozLinuxLimits", "MozSoftErrors", "LinuxCpuInfo", "BreakpadInfo", "Exception", "Assertion", "CrashpadInfo", "ThreadNames", "LinuxCmdLine",
+];
+
+fn stream_type_of(kind: usize) -> u32 {
+    use md::MINIDUMP_STREAM_TYPE as S;
+    (match kind {
+        0 => S::ThreadListStream,
+        1 => S::ModuleListStream,
+        2 => S::UnloadedModuleListStream,
+        3 => S::HandleDataStream,
+        4 => S::MemoryListStream,
+        5 => S::Memory64ListStream,
+        6 => S::MemoryInfoListStream,
+        7 => S::LinuxMaps,
+        8 => S::ThreadInfoListStream,
+        9 => S::SystemInfoStream,
+        10 => S::MiscInfoStream,
+        11 => S::MozMacosCrashInfoStream,
+        12 => S::MozMacosBootargsStream,
+        13 => S::LinuxLsbRelease,
+        14 => S::LinuxEnviron,
+        15 => S::LinuxProcStatus,
+        16 => S::MozLinuxLimits,
+        17 => S::MozSoftErrors,
+        18 => S::LinuxCpuInfo,
+        19 => S::BreakpadInfoStream,
+        20 => S::ExceptionStream,
+        21 => S::AssertionInfoStream,
+        22 => S::CrashpadInfoStream,
+        23 => S::ThreadNamesStream,
+        _ => S::LinuxCmdLine,
+    }) as u32
+}
+
+fn simple_stream(kind: usize, section: Section) -> synth::SimpleStream {
+    synth::SimpleStream { stream_type: stream_type_of(kind), section }
+}
+
+/// `ok`: kinds present and well-formed; `bad`: kinds present with a body the reader rejects;
+/// `dup`: kinds that get a second directory entry (the reader keeps the last one)
+fn build_dump(ok: u32, bad: u32, dup: u32, seed: u64) -> Vec<u8> {
+    let e = Endian::Little;
+    let mut rng = Rng::new(seed);
+    let has = |k: usize| ok & (1 << k) != 0;
+    let mut d = synth::SynthMinidump::with_endian(e);
+    if has(9) {
+        d = d.add_system_info(
+            synth::SystemInfo::new(e)
+                .set_processor_architecture(md::ProcessorArchitecture::PROCESSOR_ARCHITECTURE_INTEL as u16)
+                .set_platform_id(*rng.pick(&[2u32, 0x8201])),
+        );
+    }
+    // memory: two regions for the plain list, two others for the 64-bit list; thread stacks live in whichever exists
+    let stack_addr = 0x1000_0000u64;
+    let mk_mem = |addr: u64, fill: u8, len: usize| synth::Memory::with_section(Section::with_endian(e).append_repeated(fill, len), addr);
+    let nthreads = if has(0) { 1 + rng.below(2) } else { 0 };
+    for t in 0..nthreads {
+        let stack = mk_mem(stack_addr + 0x1000 * t, 0x40 + t as u8, 32 + rng.below(64) as usize);
+        let ctx = synth::x86_context(e, 0xabcd1234, (stack_addr + 0x1000 * t) as u32 + 8);
+        let thread = synth::Thread::new(e, 0x100 + t as u32, &stack, &ctx);
+        d = d.add_thread(thread).add(ctx);
+        // the stack bytes are in the file either way; they are LISTED only when that list is wanted
+        if has(4) && (t == 0 || !has(5)) {
+            d = d.add_memory(stack);
+        } else if has(5) {
+            d = d.add_memory64(stack);
+        } else {
+            d = d.add(stack);
+        }
+    }
+    if has(4) {
+        d = d.add_memory(mk_mem(0x2000_0000, 0x11, 16 + rng.below(48) as usize));
+    }
+    if has(5) {
+        d = d.add_memory64(mk_mem(0x3000_0000, 0x22, 16 + rng.below(48) as usize));
+        d = d.add_memory64(mk_mem(0x3000_1000, 0x23, 8));
+    }
+    if has(1) {
+        for i in 0..1 + rng.below(2) {
+            let name = synth::DumpString::new(&format!("c:\\mod{i}.dll"), e);
+            let module = synth::Module::new(e, 0x4000_0000 + 0x10_0000 * i, 0x4000, &name, 0xb1054d2a, 0x34571371, None);
+            d = d.add_module(module).add(name);
+        }
+    }
+    if has(2) {
+        let name = synth::DumpString::new("gone.dll", e);
+        d = d.add_unloaded_module(synth::UnloadedModule::new(e, 0x5000_0000, 0x2000, &name, 0x1, 0x2)).add(name);
+    }
+    if has(3) {
+        let tn = synth::DumpString::new("File", e);
+        let on = synth::DumpString::new("\\Device\\x", e);
+        d = d.add_handle_descriptor(synth::HandleDescriptor::new(e, 0x1234, Some(&tn), Some(&on), 0x12, 0x34, 1, 2)).add(tn).add(on);
+    }
+    if has(6) {
+        d = d.add_memory_info(synth::MemoryInfo::new(
+            e,
+            0x7000_0000,
+            0x7000_0000,
+            md::MemoryProtection::PAGE_EXECUTE_READ.bits(),
+            0x1000,
+            md::MemoryState::MEM_COMMIT.bits(),
+            md::MemoryProtection::PAGE_READWRITE.bits(),
+            md::MemoryType::MEM_PRIVATE.bits(),
+        ));
+    }
+    if has(7) {
+        d = d.set_linux_maps(b"00400000-00452000 r-xp 00000000 08:01 1234                       /bin/foo\n");
+    }
+    if has(8) {
+        // MINIDUMP_THREAD_INFO_LIST: header size, entry size, count, then one 64-byte entry
+        let s = Section::with_endian(e).D32(12).D32(64).D32(1).D32(0x100).D32(0).D32(0).D32(0).D64(1).D64(0).D64(2).D64(3).D64(0x1234).D64(1);
+        d = d.add_stream(simple_stream(8, s));
+    }
+    if has(10) {
+        let mut misc = synth::MiscStream::new(e);
+        misc.process_id = Some(1234);
+        d = d.add_stream(misc);
+    }
+    if has(11) {
+        // MINIDUMP_MAC_CRASH_INFO with zero records
+        let s = Section::with_endian(e).D32(stream_type_of(11)).D32(0).D32(0).append_repeated(0, 20 * 8);
+        d = d.add_stream(simple_stream(11, s));
+    }
+    if has(12) {
+        let s = Section::with_endian(e).D32(stream_type_of(12)).D64(0);
+        d = d.add_stream(simple_stream(12, s));
+    }
+    if has(13) {
+        d = d.set_linux_lsb_release(b"DISTRIB_ID=Ubuntu\nDISTRIB_RELEASE=\"20.04\"\n");
+    }
+    if has(14) {
+        d = d.set_linux_environ(b"A=b\0C=d\0");
+    }
+    if has(15) {
+        d = d.set_linux_proc_status(b"Name:\tfoo\nPid:\t42\n");
+    }
+    if has(16) {
+        d = d.set_linux_proc_limits(b"Limit Soft Hard Units\nMax cpu time unlimited unlimited seconds\n");
+    }
+    if has(17) {
+        d = d.set_soft_errors("[{\"a\":1}]");
+    }
+    if has(18) {
+        d = d.set_linux_cpu_info(b"processor : 0\nmodel name : x\n\nmicrocode : 0x1\n");
+    }
+    if has(19) {
+        d = d.add_stream(simple_stream(19, Section::with_endian(e).D32(3).D32(0x100).D32(0x100)));
+    }
+    if has(20) {
+        let mut x = synth::Exception::new(e);
+        x.thread_id = 0x100;
+        x.exception_record.exception_code = 0xC0000005;
+        x.exception_record.exception_address = 0xabcd1234;
+        x.exception_record.number_parameters = 2;
+        x.exception_record.exception_information[1] = 0x45;
+        d = d.add_exception(x);
+    }
+    if has(21) {
+        let mut s = Section::with_endian(e);
+        for field in ["expr", "func", "file.c"] {
+            let mut units: Vec<u16> = field.encode_utf16().collect();
+            units.resize(128, 0);
+            for u in units {
+                s = s.D16(u);
+            }
+        }
+        d = d.add_stream(simple_stream(21, s.D32(42).D32(1)));
+    }
+    if has(22) {
+        let module = synth::ModuleCrashpadInfo::new(0, e).add_list_annotation("annotation").add_simple_annotation("simple", "module");
+        d = d.add_crashpad_info(synth::CrashpadInfo::new(e).add_module(module).add_simple_annotation("simple", "info"));
+    }
+    if has(23) {
+        let name = synth::DumpString::new("worker", e);
+        d = d.add_thread_name(synth::ThreadName::new(e, 0x100, Some(&name))).add(name);
+    }
+    if has(24) {
+        d = d.add_stream(simple_stream(24, Section::with_endian(e).append_bytes(b"/bin/foo\0--flag\0")));
+    }
+    // unreadable bodies (3 bytes of garbage), and second directory entries
+    for k in 0..25 {
+        if bad & (1 << k) != 0 && !has(k) {
+            d = d.add_stream(simple_stream(k, Section::with_endian(e).append_bytes(&[0xff, 0xfe, 0xfd])));
+        }
+    }
+    for k in 0..25 {
+        if dup & (1 << k) != 0 {
+            // a second entry of the same type: an empty text stream / a truncated binary one
+            d = d.add_stream(simple_stream(k, Section::with_endian(e).append_bytes(b"dup\n")));
+        }
+    }
+    d.finish().unwrap_or_default()
+}
+
+struct DumpCase {
+    brief: bool,
+    ok: u32,
+    bad: u32,
+    dup: u32,
+    seed: u64,
+}
+
+fn parse_dump(case: &str) -> Option<DumpCase> {
+    let f: Vec<&str> = case.split(' ').filter(|s| !s.is_empty()).collect();
+    if f.len() != 7 || f[0] != "cli" || f[1] != "dump" {
+        return None;
+    }
+    Some(DumpCase {
+        brief: f[2].strip_prefix("b:")? == "1",
+        ok: u32::from_str_radix(f[3].strip_prefix("ok:")?, 16).ok()?,
+        bad: u32::from_str_radix(f[4].strip_prefix("bad:")?, 16).ok()?,
+        dup: u32::from_str_radix(f[5].strip_prefix("dup:")?, 16).ok()?,
+        seed: f[6].strip_prefix("seed:")?.parse().ok()?,
+    })
+}
+
+/// `dump.get_stream::<T>()` for every stream type of the minidump crate: (rust type, state)
+fn stream_states<'a, T: Deref<Target = [u8]> + 'a>(dump: &'a Minidump<'a, T>) -> Vec<(&'static str, u8)> {
+    let mut v = vec![];
+    macro_rules! st {
+        ($t:ty, $name:expr) => {
+            v.push(($name, match dump.get_stream::<$t>() {
+                Ok(_) => 2u8,
+                Err(Error::StreamNotFound) => 0,
+                Err(_) => 1,
+            }));
+        };
+    }
+    st!(MinidumpThreadNames, "MinidumpThreadNames");
+    st!(MinidumpModuleList, "MinidumpModuleList");
+    st!(MinidumpUnloadedModuleList, "MinidumpUnloadedModuleList");
+    st!(MinidumpHandleDataStream, "MinidumpHandleDataStream");
+    st!(MinidumpMemoryList<'_>, "MinidumpMemoryList");
+    st!(MinidumpMemory64List<'_>, "MinidumpMemory64List");
+    st!(MinidumpMemoryInfoList<'_>, "MinidumpMemoryInfoList");
+    st!(MinidumpLinuxMaps<'_>, "MinidumpLinuxMaps");
+    st!(MinidumpThreadList<'_>, "MinidumpThreadList");
+    st!(MinidumpThreadInfoList, "MinidumpThreadInfoList");
+    st!(MinidumpSystemInfo, "MinidumpSystemInfo");
+    st!(MinidumpMiscInfo, "MinidumpMiscInfo");
+    st!(MinidumpMacCrashInfo, "MinidumpMacCrashInfo");
+    st!(MinidumpMacBootargs, "MinidumpMacBootargs");
+    st!(MinidumpLinuxLsbRelease<'_>, "MinidumpLinuxLsbRelease");
+    st!(MinidumpLinuxEnviron<'_>, "MinidumpLinuxEnviron");
+    st!(MinidumpLinuxProcStatus<'_>, "MinidumpLinuxProcStatus");
+    st!(MinidumpLinuxProcLimits<'_>, "MinidumpLinuxProcLimits");
+    st!(MinidumpSoftErrors<'_>, "MinidumpSoftErrors");
+    st!(MinidumpLinuxCpuInfo<'_>, "MinidumpLinuxCpuInfo");
+    st!(MinidumpBreakpadInfo, "MinidumpBreakpadInfo");
+    st!(MinidumpException<'_>, "MinidumpException");
+    st!(MinidumpAssertion, "MinidumpAssertion");
+    st!(MinidumpCrashpadInfo, "MinidumpCrashpadInfo");
+    v
+}
+
+fn dump_model_request(case: &str) -> Option<String> {
+    let c = parse_dump(case)?;
+    let bytes = build_dump(c.ok, c.bad, c.dup, c.seed);
+    let dump = Minidump::read(bytes).ok()?;
+    let states = stream_states(&dump);
+    let list = |want: u8| {
+        let v: Vec<&str> = states.iter().filter(|(_, s)| *s == want).map(|(n, _)| *n).collect();
+        if v.is_empty() { "-".to_string() } else { v.join(",") }
+    };
+    let raws: Vec<&str> = RAW_STREAMS.iter().filter(|(t, _)| dump.get_raw_stream(*t as u32).is_ok()).map(|(_, n)| *n).collect();
+    Some(format!("cli dumpsecs b:{} ok:{} bad:{} raw:{}", c.brief as u8, list(2), list(1), if raws.is_empty() { "-".to_string() } else { raws.join(",") }))
+}
+
+fn dump_exec(case: &str) -> ImplResult {
+    let mut res = ImplResult::default();
+    let Some(c) = parse_dump(case) else {
+        res.out = "bad-op".into();
+        return res;
+    };
+    let dir = fresh_dir("d");
+    let bytes = build_dump(c.ok, c.bad, c.dup, c.seed);
+    let path = dir.join("synth.dmp");
+    std::fs::write(&path, &bytes).unwrap();
+    let mut args: Vec<String> = vec!["--dump".into()];
+    if c.brief {
+        args.push("--brief".into());
+    }
+    args.push(path.display().to_string());
+    let kinds = |m: u32| (0..25).filter(|k| m & (1 << k) != 0).map(|k| KINDS[k]).collect::<Vec<_>>().join(",");
+    let cmdline = format!(
+        "minidump-stackwalk {} (synthesized dump: streams {}; unreadable {}; duplicated {})",
+        args.join(" "),
+        kinds(c.ok),
+        kinds(c.bad),
+        kinds(c.dup)
+    );
+    let output = match base_command().args(&args).output() {
+        Ok(o) => o,
+        Err(e) => {
+            res.out = format!("cannot run tool: {e}");
+            res.oracle.push(("tool-not-runnable".into(), format!("{}: {e}", tool().display())));
+            return res;
+        }
+    };
+    let r = catch(|| {
+        let dump = Minidump::read(bytes.clone()).ok()?;
+        let exp = lib_sections(&dump, c.brief);
+        let got = segment(&dump, &exp, &output.stdout, c.brief);
+        Some((exp.into_iter().map(|(l, _)| l).collect::<Vec<_>>(), got, stream_states(&dump)))
+    });
+    match (output.status.code(), r) {
+        (Some(0), Ok(Some((exp, got, states)))) => {
+            res.nontrivial = true;
+            res.out = got.join(";");
+            res.tags.push(format!("dump-sections:{}", got.len().min(30) / 5 * 5));
+            // every stream type the library can print and the dump contains is printed exactly once
+            if got != exp {
+                let missing: Vec<&String> = exp.iter().filter(|l| !got.contains(l)).collect();
+                let extra: Vec<&String> = got.iter().filter(|l| !exp.contains(l) || got.iter().filter(|x| x == l).count() > 1).collect();
+                res.oracle.push((
+                    "dump-sections-differ-from-the-library's-printers".into(),
+                    format!("{cmdline}: missing {missing:?}, unexpected/duplicated {extra:?}; printed {got:?}"),
+                ));
+            }
+            if states.iter().any(|(n, s)| *n == "MinidumpMemoryList" && *s == 2) && states.iter().any(|(n, s)| *n == "MinidumpMemory64List" && *s == 2) {
+                res.tags.push("dump:both-memory-lists".into());
+            }
+            if states.iter().any(|(_, s)| *s == 1) {
+                res.tags.push("dump:unreadable-stream".into());
+            }
+        }
+        (Some(1), Ok(None)) => res.out = "exit1".into(),
+        (code, lib) => {
+            res.out = format!("ABNORMAL {}", exit_label(&output.status));
+            res.oracle.push((
+                if lib.is_err() { "library-panics-on-file" } else { "abnormal-exit" }.into(),
+                format!("{cmdline}: status {code:?}, library: {:?} ({})", lib.map(|x| x.is_some()), String::from_utf8_lossy(&output.stderr).lines().last().unwrap_or("")),
+            ));
+        }
+    }
+    let _ = std::fs::remove_dir_all(&dir);
+    res
+}
+
+// ------------------------------------------------------------------------------------------------
+// kind 5: the output path is the minidump itself
+// ------------------------------------------------------------------------------------------------
+
+fn selfout_exec(case: &str) -> ImplResult {
+    let mut res = ImplResult::default();
+    let which = case.split(' ').nth(2).unwrap_or("");
+    let dir = fresh_dir("s");
+    let path = dir.join("in.dmp");
+    std::fs::copy(repo().join("testdata/test.dmp"), &path).unwrap();
+    let p = path.display().to_string();
+    let args: Vec<String> = match which {
+        "out" => vec!["--output-file".into(), p.clone(), p.clone()],
+        "cy" => vec!["--cyborg".into(), p.clone(), p.clone()],
+        "log" => vec!["--log-file".into(), p.clone(), p.clone()],
+        _ => {
+            res.out = "bad-op".into();
+            return res;
+        }
+    };
+    let output = base_command().args(&args).output();
+    let _ = std::fs::remove_dir_all(&dir);
+    let Ok(output) = output else {
+        res.out = "cannot run tool".into();
+        return res;
+    };
+    res.out = format!("exit:{}", exit_label(&output.status));
+    res.nontrivial = true;
+    // "It never ends by panic, abort or signal"
+    if !matches!(output.status.code(), Some(0) | Some(1) | Some(2)) {
+        res.oracle.push((
+            "killed-by-signal-when-an-output-path-is-the-minidump".into(),
+            format!("minidump-stackwalk {} (in.dmp = a copy of testdata/test.dmp): status {:?}", args.join(" ").replace(&p, "in.dmp"), output.status),
+        ));
+    }
+    res
+}
+
+// ------------------------------------------------------------------------------------------------
+// the engine
+// ------------------------------------------------------------------------------------------------
+
+fn kind_of(case: &str) -> &str {
+    case.split(' ').filter(|s| !s.is_empty()).nth(1).unwrap_or("")
+}
+
+/// `hm`: bit 0 = `--help-markdown`, bit 1 = `--use-local-debuginfo`
+fn io_line(flags: &str, v: u8, hm: u8, input: &str, cy: &str, out: &str, log: &str, so: &str, lim: &str, fs: &[&str]) -> String {
+    // the special ids carry their kind; listed ids are sorted and unique
+    let mut items: Vec<String> = fs.iter().map(|s| s.to_string()).collect();
+    for id in [cy, out, log] {
+        let spec = match id {
+            "F" => "F=full",
+            "Z" => "Z=null",
+            "D" => "D=dir",
+            "N" => "N=nodir",
+            _ => continue,
+        };
+        if !items.iter().any(|i| i == spec) {
+            items.push(spec.to_string());
+        }
+    }
+    items.sort();
+    items.dedup();
+    format!(
+        "cli io {flags} v:{v} hm:{} lu:{} in:{input} cy:{cy} out:{out} log:{log} so:{so} lim:{lim} fs:{}",
+        hm & 1,
+        hm >> 1,
+        if items.is_empty() { "-".to_string() } else { items.join(";") }
+    )
+}
+
+fn generate_io(emit: &mut dyn FnMut(String)) {
+    let ok = "t:test.dmp";
+    let single = ["-", "b", "j", "jp", "db", "h", "hb"];
+    // (1) every single-report mode x primary writer x standard output
+    for flags in single {
+        for out in ["-", "a", "D", "N", "F", "Z"] {
+            for so in ["ok", "full", "closed"] {
+                emit(io_line(flags, 0, 0, ok, "-", out, "-", so, "-", &[]));
+            }
+        }
+        // a pre-existing LONGER file at the output path, and an existing shorter one
+        emit(io_line(flags, 0, 0, ok, "-", "a", "-", "ok", "-", &["a=file:400000:7"]));
+        emit(io_line(flags, 0, 0, ok, "-", "a", "-", "ok", "-", &["a=file:10:3"]));
+    }
+    // (2) cyborg: cyborg file x output file x standard output
+    for flags in ["c", "cb", "cp", "cbp"] {
+        for cy in ["b", "D", "N", "F", "Z"] {
+            for out in ["-", "a", "D", "N", "F"] {
+                for so in ["ok", "full", "closed"] {
+                    if so != "ok" && out != "-" && cy != "b" {
+                        continue;
+                    }
+                    emit(io_line(flags, 0, 0, ok, cy, out, "-", so, "-", &[]));
+                }
+            }
+        }
+        emit(io_line(flags, 0, 0, ok, "b", "a", "-", "ok", "-", &["a=file:400000:1", "b=file:400000:2"]));
+        emit(io_line(flags, 0, 0, ok, "b", "-", "-", "ok", "-", &["b=file:400000:2"]));
+        // the same path twice
+        emit(io_line(flags, 0, 0, ok, "a", "a", "-", "ok", "-", &[]));
+        emit(io_line(flags, 0, 0, ok, "a", "a", "-", "ok", "-", &["a=file:400000:5"]));
+    }
+    // (3) the log file: created first; receives the diagnostics; same path as another option
+    for (flags, cy) in [("-", "-"), ("j", "-"), ("c", "b"), ("db", "-"), ("p", "-"), ("jb", "-")] {
+        for input in [ok, "missing", "synth:nosys"] {
+            for log in ["l", "N", "D"] {
+                emit(io_line(flags, 0, 0, input, cy, "a", log, "ok", "-", &["a=file:5000:4", "l=file:5000:9"]));
+                emit(io_line(flags, 0, 0, input, cy, "-", log, "ok", "-", &[]));
+            }
+        }
+    }
+    emit(io_line("-", 0, 0, ok, "-", "a", "a", "ok", "-", &["a=file:5000:4"]));
+    emit(io_line("c", 0, 0, ok, "a", "-", "a", "ok", "-", &[]));
+    emit(io_line("j", 0, 0, ok, "-", "a", "a", "ok", "-", &[]));
+    // (4) inputs x modes (files created before processing; nothing touched when the dump is unreadable)
+    for input in ["missing", "empty", "dir", "synth:nosys", "t:linux-mini.dmp"] {
+        for (flags, cy) in [("-", "-"), ("b", "-"), ("j", "-"), ("c", "b"), ("db", "-"), ("d", "-"), ("p", "-"), ("jb", "-"), ("hj", "-")] {
+            emit(io_line(flags, 0, 0, input, cy, "a", "-", "ok", "-", &["a=file:3000:4", "b=file:3000:6"]));
+            emit(io_line(flags, 0, 0, input, cy, "-", "-", "ok", "-", &[]));
+            emit(io_line(flags, 1, 0, input, cy, "-", "-", "ok", "-", &[]));
+            emit(io_line(flags, 1, 0, input, cy, "-", "l", "ok", "-", &[]));
+        }
+    }
+    // (5) failure points: a size limit on every regular file (disk full / quota), at several offsets of each report
+    let sizes = |flags: &str| -> Vec<u64> {
+        // lengths of the reports of test.dmp are not known here: offsets are spread over 0..12000
+        let _ = flags;
+        vec![0, 1, 512, 1000, 1700, 1749, 1750, 3000, 7000, 7136, 7137, 10169, 10170, 20000]
+    };
+    for flags in ["-", "b", "j", "jp"] {
+        for n in sizes(flags) {
+            let n = n.to_string();
+            emit(io_line(flags, 0, 0, ok, "-", "a", "-", "ok", &n, &[]));
+            // standard output redirected to a regular file under the same limit
+            emit(io_line(flags, 0, 0, ok, "-", "-", "-", &format!("cap:{n}"), &n, &[]));
+        }
+    }
+    for flags in ["c", "cp"] {
+        for n in sizes(flags) {
+            let n = n.to_string();
+            emit(io_line(flags, 0, 0, ok, "b", "a", "-", "ok", &n, &[]));
+            emit(io_line(flags, 0, 0, ok, "b", "-", "-", "ok", &n, &[]));
+        }
+    }
+    for n in [0u64, 100, 5000, 100000] {
+        emit(io_line("db", 0, 0, ok, "-", "a", "-", "ok", &n.to_string(), &[]));
+        emit(io_line("db", 0, 0, ok, "-", "-", "-", &format!("cap:{n}"), &n.to_string(), &[]));
+    }
+    // (5b) --use-local-debuginfo: an x86 dump (refused: status 1 after the files were created), a missing
+    // file, a dump without system info
+    for (flags, cy) in [("-", "-"), ("b", "-"), ("j", "-"), ("c", "b"), ("db", "-"), ("p", "-")] {
+        for input in [ok, "missing", "synth:nosys"] {
+            emit(io_line(flags, 0, 2, input, cy, "-", "-", "ok", "-", &[]));
+            emit(io_line(flags, 0, 2, input, cy, "a", "l", "ok", "-", &["a=file:3000:4", "b=file:3000:6"]));
+            emit(io_line(flags, 1, 2, input, cy, "a", "-", "ok", "-", &[]));
+        }
+    }
+    // (6) the hidden --help-markdown (a member of the format group): healthy and failing standard output
+    emit(io_line("-", 0, 1, ok, "-", "-", "-", "ok", "-", &[]));
+    emit(io_line("-", 0, 1, ok, "-", "a", "l", "ok", "-", &[]));
+    emit(io_line("-", 0, 1, ok, "-", "-", "-", "full", "-", &[]));
+    emit(io_line("j", 0, 1, ok, "-", "-", "-", "ok", "-", &[]));
+    emit(io_line("-", 0, 1, "missing", "-", "-", "-", "ok", "-", &[]));
+}
+
+fn generate_opt(tier: Tier, emit: &mut dyn FnMut(String)) {
+    for feat in 0..4 {
+        for rec in 0..2 {
+            for evil in 0..2 {
+                for sym in 0..5 {
+                    for mode in ['h', 'j', 'c'] {
+                        if tier == Tier::Quick && mode == 'c' && (feat + rec + evil + sym) % 2 == 1 {
+                            continue;
+                        }
+                        emit(format!("cli opt feat:{feat} rec:{rec} evil:{evil} sym:{sym} url:0 local:0 noint:1 mode:{mode}"));
+                    }
+                }
+            }
+        }
+    }
+    // symbols over HTTP (loopback server): with and without local paths; the other switches
+    for feat in [0, 2] {
+        for rec in 0..2 {
+            for sym in 0..5 {
+                emit(format!("cli opt feat:{feat} rec:{rec} evil:0 sym:{sym} url:1 local:0 noint:1 mode:h"));
+            }
+        }
+    }
+    for sym in [0, 1, 2, 3] {
+        for mode in ['h', 'j'] {
+            emit(format!("cli opt feat:0 rec:1 evil:0 sym:{sym} url:0 local:1 noint:1 mode:{mode}"));
+            emit(format!("cli opt feat:0 rec:1 evil:1 sym:{sym} url:0 local:0 noint:0 mode:{mode}"));
+        }
+    }
+}
+
+fn generate_dump(tier: Tier, rng: &mut Rng, emit: &mut dyn FnMut(String)) {
+    let all: u32 = (1 << 25) - 1;
+    let mut masks: Vec<(u32, u32, u32)> = vec![(0, 0, 0), (all, 0, 0)];
+    for k in 0..25 {
+        masks.push((1 << k, 0, 0));
+        masks.push((all & !(1 << k), 0, 0));
+        // the stream alone, unreadable; and unreadable among all the others
+        masks.push((0, 1 << k, 0));
+        masks.push((all & !(1 << k), 1 << k, 0));
+    }
+    // the memory lists, the thread list and what the thread list borrows, in every combination
+    for m in 0..32u32 {
+        let pick = |bit: u32, k: u32| if m & (1 << bit) != 0 { 1 << k } else { 0 };
+        let ok = pick(0, 0) | pick(1, 4) | pick(2, 5) | pick(3, 9) | pick(4, 10);
+        masks.push((ok, 0, 0));
+        masks.push((ok | (1 << 20) | (1 << 1), 0, 0));
+    }
+    for k in [0u32, 1, 4, 5, 7, 9, 13, 20, 22] {
+        masks.push((all, 0, 1 << k));
+        masks.push((1 << k | 1 << 9, 0, 1 << k));
+    }
+    let n = if tier == Tier::Quick { 120 } else { 600 };
+    for _ in 0..n {
+        let ok = (rng.next() as u32) & all;
+        let bad = if rng.chance(1, 3) { (rng.next() as u32) & (rng.next() as u32) & all & !ok } else { 0 };
+        let dup = if rng.chance(1, 6) { 1 << rng.below(25) } else { 0 };
+        masks.push((ok, bad, dup));
+    }
+    for (i, (ok, bad, dup)) in masks.iter().enumerate() {
+        for b in 0..2 {
+            if tier == Tier::Quick && i >= 102 && (i + b) % 2 == 1 {
+                continue;
+            }
+            emit(format!("cli dump b:{b} ok:{ok:x} bad:{bad:x} dup:{dup:x} seed:{}", 1 + (i as u64 % 7)));
+        }
+    }
+}
+
 impl Engine for Cli {
     fn name(&self) -> &'static str {
         "cli"
     }
     fn rule(&self) -> String {
-        "case = (output flags ⊆ {--human,--json,--cyborg F,--dump,--brief,--pretty}, file, --features value, --output-file?, --log-file?, symbol path form); all 64 flag sets x files (7 repo dumps, missing, empty, directory, garbage, truncations, byte-mutated dumps) with the other options cycled; the built binary is run and its exit status/stdout/stderr/files are compared with the Lean decision table and with the library's reports computed in-process on the same file. non-trivial = the tool accepted the options and the file was readable (a report was due); distinct = distinct case line".into()
+        "five kinds of cases, each one run of the built minidump-stackwalk binary: (tab) all 64 subsets of the six format flags x files (repo dumps, missing, empty, directory, garbage, truncations, byte-mutated dumps) with --features/--output-file (over a longer pre-existing file)/--log-file/symbol-path forms cycled, vs the Lean decision table and the library's reports; (io) a described world — output/cyborg/log paths that are absent, pre-existing and longer, directories, uncreatable, /dev/full, /dev/null, the same path twice, a file-size limit at many offsets of each report (RLIMIT_FSIZE with SIGXFSZ ignored), standard output healthy / /dev/full / a pipe without reader / a size-limited regular file, --verbose off, --help-markdown — vs MdModel.Cli.run (exit status, bytes on stdout, diagnostic class, final state of every named path); (opt) --features x --recover-function-args x --evil-json x symbol path forms x --symbols-url (loopback server) x modes vs MdModel.Cli.plan and vs the library called in-process with the planned options; (dump) --dump [--brief] on synthesized dumps containing each of 25 stream kinds alone / all / all but one / unreadable / duplicated / random subsets, every combination of both memory lists + thread list + system/misc info, vs MdModel.Cli.dumpSections and the library's per-stream printers; (selfout) an output path that is the minidump. non-trivial = a report was due or written; distinct = distinct case line".into()
     }
     fn exhaustive_part(&self) -> Option<String> {
-        Some("all 64 subsets of {human,json,cyborg,dump,brief,pretty} for every corpus file (the decision table's whole flag space)".into())
+        Some("all 64 subsets of {human,json,cyborg,dump,brief,pretty} for every corpus file (the decision table's whole flag space); all 32 combinations of {thread list, memory list, memory-64 list, system info, misc info} for --dump; every stream kind alone, absent from the full set, and unreadable".into())
+    }
+    fn case_timeout_secs(&self) -> u64 {
+        120
     }
 
     fn generate(&self, tier: Tier, rng: &mut Rng, emit: &mut dyn FnMut(String)) {
+        // directed kinds first: they are the cheap ones
+        generate_io(emit);
+        generate_opt(tier, emit);
+        generate_dump(tier, rng, emit);
+        for which in ["out", "cy", "log"] {
+            emit(format!("cli selfout {which}"));
+        }
+        // the decision table
         let mut files: Vec<String> = TESTDATA.iter().map(|n| format!("t:{n}")).collect();
-        files.extend(["missing".to_string(), "empty".into(), "dir".into()]);
-        let extra = if tier == Tier::Quick { 10 } else { 24 };
+        files.extend(["missing".to_string(), "empty".into(), "dir".into(), "synth:nosys".into()]);
+        let extra = if tier == Tier::Quick { 6 } else { 24 };
         for _ in 0..extra {
             files.push(format!("garbage:{}", rng.below(1 << 32)));
             let name = *rng.pick(&["test.dmp", "linux-mini.dmp", "simple-crashpad.dmp"]);
@@ -318,13 +2155,12 @@ impl Engine for Cli {
                 // cycle the options that do not take part in the decision
                 k = k.wrapping_add(1);
                 let variants: &[(u32, u32, u32, u32)] = if tier == Tier::Quick {
-                    &[(0, 0, 0, 0), (1, 1, 1, 1)]
+                    &[(0, 0, 0, 0)]
                 } else {
                     &[(0, 0, 0, 0), (1, 1, 0, 1), (2, 0, 1, 2), (2, 1, 1, 0)]
                 };
                 for (vi, v) in variants.iter().enumerate() {
                     let (feat, out, log, sym) = if tier == Tier::Quick {
-                        let k = k.wrapping_add(7 * vi as u32);
                         (k % 3, (k / 3) % 2, (k / 6) % 2, (k / 12) % 5)
                     } else {
                         (v.0, v.1, v.2, (v.3 + vi as u32 + k) % 5)
@@ -336,156 +2172,26 @@ impl Engine for Cli {
     }
 
     fn model_request(&self, case: &str) -> Option<String> {
-        let c = parse_case(case)?;
-        let key = format!("{}|{}|{}", c.file, c.feat, c.sym);
-        if let Some(class) = CLASSES.lock().unwrap().as_ref().and_then(|m| m.get(&key).copied()) {
-            return Some(format!("cli {} {}", c.flags, class));
+        match kind_of(case) {
+            "io" => io_model_request(case),
+            "opt" => opt_model_request(case),
+            "dump" => dump_model_request(case),
+            "selfout" => None,
+            _ => tab_model_request(case),
         }
-        let dir = scratch().join(format!("m{}", COUNTER.fetch_add(1, Ordering::Relaxed)));
-        std::fs::create_dir_all(&dir).ok()?;
-        let path = materialise(&c.file, &dir);
-        let lib = library(&path, c.feat, c.sym);
-        let _ = std::fs::remove_dir_all(&dir);
-        Some(format!("cli {} {}", c.flags, lib.class))
+    }
+
+    fn same(&self, impl_out: &str, model_out: &str) -> bool {
+        impl_out == model_out || (impl_out.starts_with("ok evil:") && impl_out == opt_observable(model_out))
     }
 
     fn exec(&self, case: &str) -> ImplResult {
-        let mut res = ImplResult::default();
-        let Some(c) = parse_case(case) else {
-            res.out = "bad-op".into();
-            return res;
-        };
-        let dir = scratch().join(format!("c{}", COUNTER.fetch_add(1, Ordering::Relaxed)));
-        std::fs::create_dir_all(&dir).unwrap();
-        let path = materialise(&c.file, &dir);
-        let lib = library(&path, c.feat, c.sym);
-        CLASSES
-            .lock()
-            .unwrap()
-            .get_or_insert_with(Default::default)
-            .insert(format!("{}|{}|{}", c.file, c.feat, c.sym), lib.class);
-        res.tags.push(format!("input:{}", lib.class));
-        res.tags.push(format!("file:{}", c.file.split(':').next().unwrap()));
-
-        let out_file = dir.join("out.txt");
-        let cyborg_file = dir.join("cyborg.json");
-        let log_file = dir.join("log.txt");
-        let mut args: Vec<String> = vec![];
-        let has = |ch: char| c.flags.contains(ch);
-        if has('h') {
-            args.push("--human".into());
+        match kind_of(case) {
+            "io" => io_exec(case),
+            "opt" => opt_exec(case),
+            "dump" => dump_exec(case),
+            "selfout" => selfout_exec(case),
+            _ => tab_exec(case),
         }
-        if has('j') {
-            args.push("--json".into());
-        }
-        if has('c') {
-            args.push("--cyborg".into());
-            args.push(cyborg_file.display().to_string());
-        }
-        if has('d') {
-            args.push("--dump".into());
-        }
-        if has('b') {
-            args.push("--brief".into());
-        }
-        if has('p') {
-            args.push("--pretty".into());
-        }
-        args.push("--features".into());
-        args.push(["stable-basic", "stable-all", "unstable-all"][c.feat as usize % 3].into());
-        if c.out {
-            args.push("--output-file".into());
-            args.push(out_file.display().to_string());
-        }
-        if c.log {
-            args.push("--log-file".into());
-            args.push(log_file.display().to_string());
-        }
-        args.push("--no-interactive".into());
-        let (named, positional) = sym_paths(c.sym);
-        for p in &named {
-            args.push("--symbols-path".into());
-            args.push(p.display().to_string());
-        }
-        args.push(path.display().to_string());
-        for p in &positional {
-            args.push(p.display().to_string());
-        }
-        let output = Command::new(tool())
-            .args(&args)
-            .env("RUST_BACKTRACE", "0")
-            .env("NO_COLOR", "1")
-            .stdin(Stdio::null())
-            .output();
-        let output = match output {
-            Ok(o) => o,
-            Err(e) => {
-                res.out = format!("cannot run tool: {e}");
-                res.oracle.push(("tool-not-runnable".into(), format!("{}: {e}", tool().display())));
-                return res;
-            }
-        };
-        let stdout = output.stdout;
-        let stderr = String::from_utf8_lossy(&output.stderr).to_string();
-        let log = std::fs::read_to_string(&log_file).unwrap_or_default();
-        let primary: Vec<u8> = if c.out { std::fs::read(&out_file).unwrap_or_default() } else { stdout.clone() };
-        let cyborg: Vec<u8> = std::fs::read(&cyborg_file).unwrap_or_default();
-        let diag = format!("{stderr}{log}");
-        let brief = has('b');
-        let pretty = has('p');
-        match output.status.code() {
-            Some(0) => {
-                let p = classify(&primary, &lib, brief, pretty);
-                let cy = classify(&cyborg, &lib, brief, pretty);
-                res.out = format!("exit0 primary:{p} cyborg:{cy}");
-                res.nontrivial = true;
-                if p.starts_with("UNKNOWN") || cy.starts_with("UNKNOWN") {
-                    res.oracle.push((
-                        "report-differs-from-library".into(),
-                        format!("args {args:?}: primary={p} cyborg={cy}; library class {}", lib.class),
-                    ));
-                }
-                if c.out && !stdout.is_empty() {
-                    res.oracle.push(("stdout-not-empty-with-output-file".into(), format!("args {args:?}: {} bytes on stdout", stdout.len())));
-                }
-                if p == "-" && cy == "-" {
-                    res.oracle.push(("exit0-without-report".into(), format!("args {args:?}")));
-                }
-            }
-            Some(1) => {
-                res.out = "exit1".into();
-                if !primary.is_empty() || !stdout.is_empty() || !cyborg.is_empty() {
-                    res.oracle.push((
-                        "failure-wrote-output".into(),
-                        format!("args {args:?}: exit 1 but primary={}B stdout={}B cyborg={}B", primary.len(), stdout.len(), cyborg.len()),
-                    ));
-                }
-                if diag.trim().is_empty() {
-                    res.oracle.push(("failure-without-diagnostic".into(), format!("args {args:?}")));
-                }
-            }
-            Some(2) => {
-                res.out = "usage".into();
-                if !primary.is_empty() || !stdout.is_empty() || !cyborg.is_empty() {
-                    res.oracle.push(("usage-error-wrote-output".into(), format!("args {args:?}")));
-                }
-                if stderr.trim().is_empty() {
-                    res.oracle.push(("usage-error-without-diagnostic".into(), format!("args {args:?}")));
-                }
-            }
-            other => {
-                res.out = format!("ABNORMAL {other:?}");
-                let tail: String = diag.lines().rev().take(3).collect::<Vec<_>>().join(" | ");
-                res.oracle.push((
-                    "abnormal-exit".into(),
-                    format!("args {args:?}: status {:?} ({tail})", output.status),
-                ));
-            }
-        }
-        if let Some(msg) = &lib.panicked {
-            res.oracle.push(("library-panics-on-file".into(), format!("file {}: {msg}", c.file)));
-        }
-        let _ = std::fs::remove_dir_all(&dir);
-        res
     }
 }
